@@ -1,7 +1,9 @@
 (* C18: the static report of undeclared variables contains every key the interpreter asks the
-   render context for.  Mutual induction on the interpreter's fuel over eval / call_macro / exec /
-   exec_list; the list-walking combinators of Lang/Interp.v each get a lemma of their own. *)
-From MJ Require Import Common.Base Lang.Syntax Lang.Meta Lang.Interp C18.Old C18.Tracker C18.Runtime.
+   render context for, whatever the outcome of the render.  Mutual induction on the fuel of the
+   error-carrying interpreter (C18/XInterp.v) over xeval / xcall_macro / xexec / xexec_list; the
+   list-walking combinators each get a lemma of their own.  The statement about the shared
+   interpreter Lang/Interp.v follows through C18/XAgree.v. *)
+From MJ Require Import Common.Base Lang.Syntax Lang.Meta Lang.Interp C09.Spec C18.Old C18.Tracker C18.Runtime C18.XInterp C18.XAgree C18.NMeta C18.NTracker.
 
 Section Main.
 Variable c : cfg.
@@ -128,25 +130,81 @@ Proof.
   eapply loop_local; eauto.
 Qed.
 
-(* ---- what the four mutually recursive functions guarantee ---- *)
-Definition eval_spec (ev : st -> expr -> outcome (value * st)) : Prop :=
-  forall s e v s' t, ev s e = Ok (v, s') -> sgood s -> nonempty t -> Inv c t s ->
-    step_ok c (t_out (visit_expr e t)) s s' /\ vgood (s_clos s') v.
 
-Definition call_spec (cm : st -> macro -> option nat -> list value -> list (name * value) -> outcome (value * st)) : Prop :=
-  forall s mc cl args kwargs v s', cm s mc cl args kwargs = Ok (v, s') -> sgood s -> mgood (s_clos s) mc cl ->
-    Forall (vgood (s_clos s)) args -> Forall (fun kv => vgood (s_clos s) (snd kv)) kwargs ->
-    step_ok c [] s s' /\ vgood (s_clos s') v.
+Lemma select_sub {A} (l : list A) idx x : In x (select l idx) -> In x l.
+Proof.
+  unfold select. intros H. apply in_flat_map in H as (i & _ & H).
+  destruct (nth_error l (Z.to_nat i)) eqn:E; [|destruct H]. destruct H as [<-|[]]. eapply nth_error_In; eauto.
+Qed.
 
-Definition exec_spec (ex : st -> stmt -> outcome (signal * st)) : Prop :=
-  forall s st sg s' t, ex s st = Ok (sg, s') -> sgood s -> nonempty t -> Inv c t s ->
-    step_ok c (t_out (walk st t)) s s' /\ (sg = SigNormal -> Inv c (walk st t) s').
+Lemma xdo_filter_good C md esc f v args r : xdo_filter md esc f v args = Ok r -> vgood C v -> Forall (vgood C) args -> vgood C r.
+Proof.
+  unfold xdo_filter. destruct (f =? F_slice).
+  - unfold slice_value. intros H Hv _. destruct args as [|a [|b [|d [|? ?]]]]; try discriminate.
+    apply bind_ok in H as (start & _ & H). apply bind_ok in H as (stop & _ & H). apply bind_ok in H as (stp & _ & H).
+    destruct (_ =? 0); [discriminate|]. destruct v; try discriminate; inversion H; subst; try exact I.
+    apply vgood_list. apply vgood_list in Hv. rewrite Forall_forall in *. intros x Hx. apply Hv. eapply select_sub; eauto.
+  - destruct (f =? F_setattr); [discriminate|]. apply do_filter_good.
+Qed.
 
-Definition exec_list_spec (ex : st -> list stmt -> outcome (signal * st)) : Prop :=
-  forall s l sg s' t, ex s l = Ok (sg, s') -> sgood s -> nonempty t -> Inv c t s ->
-    step_ok c (t_out (walk_list l t)) s s' /\ (sg = SigNormal -> Inv c (walk_list l t) s').
+(* ---- outcomes that carry their lookups: a small Hoare logic over bindE ---- *)
+Definition ast (a : list name) : st := mkSt [] [] [] a.
 
-(* after an expression ran, the invariant holds for the tracker that visited it *)
+(* [Q] holds of a result; a failure only asked for names that are in [o] and not local at [s] *)
+Definition epost {A} (o : list name) (s : st) (r : outE A) (Q : A -> Prop) : Prop :=
+  match r with
+  | OkE a => Q a
+  | ErrE _ a => asks_in (AP c o s) s (ast a)
+  | _ => True
+  end.
+
+(* where a sub-computation starts, seen from the start [s] of the enclosing one *)
+Definition pre (o : list name) (s s1 : st) : Prop := asks_in (AP c o s) s s1 /\ lmono c s s1.
+
+Lemma pre_refl o s : pre o s s.
+Proof. split; [apply asks_in_refl; reflexivity|apply lmono_refl]. Qed.
+Lemma pre_of_step o s s1 : step_ok c o s s1 -> pre o s s1.
+Proof. intros H. split; [apply H|apply (step_ok_lmono _ _ _ H)]. Qed.
+Lemma pre_step o o1 s s1 s2 : pre o s s1 -> step_ok c o1 s1 s2 -> omono o1 o -> pre o s s2.
+Proof.
+  intros [P1 P2] H Ho. split; [|eapply lmono_trans; [exact P2|apply (step_ok_lmono _ _ _ H)]].
+  eapply asks_in_trans; [exact P1|]. eapply asks_in_weaken; [|apply H]. intros x. apply AP_weaken; auto.
+Qed.
+Lemma pre_eq o s s1 s2 : pre o s s1 -> s_asks s2 = s_asks s1 -> lmono c s1 s2 -> pre o s s2.
+Proof.
+  intros [P1 P2] E Hl. split; [|eapply lmono_trans; eauto]. eapply asks_in_eq; [reflexivity|symmetry; exact E|exact P1].
+Qed.
+Lemma pre_weaken o o' s s1 : pre o s s1 -> omono o o' -> pre o' s s1.
+Proof. intros [P1 P2] Ho. split; auto. eapply asks_in_weaken; [|exact P1]. intros x. apply AP_weaken; auto. apply lmono_refl. Qed.
+
+Lemma epost_ok {A} o s (a : A) (Q : A -> Prop) : Q a -> epost o s (OkE a) Q.
+Proof. intros H. exact H. Qed.
+
+Lemma epost_err {A} o s s1 code (Q : A -> Prop) : pre o s s1 -> epost o s (ErrE code (s_asks s1)) Q.
+Proof. intros [P _]. cbn [epost]. eapply asks_in_eq; [reflexivity| |exact P]. reflexivity. Qed.
+
+Lemma epost_rebase {A} o o1 s s1 (r : outE A) (Q : A -> Prop) : pre o s s1 -> omono o1 o -> epost o1 s1 r Q -> epost o s r Q.
+Proof.
+  intros [P1 P2] Ho H. destruct r; cbn [epost] in *; auto.
+  eapply asks_in_trans; [exact P1|]. eapply asks_in_weaken; [|exact H]. intros x. apply AP_weaken; auto.
+Qed.
+
+Lemma epost_imp {A} o s (r : outE A) (Q Q' : A -> Prop) : (forall a, Q a -> Q' a) -> epost o s r Q -> epost o s r Q'.
+Proof. intros HQ H. destruct r; cbn [epost] in *; auto. Qed.
+
+(* sequencing: the sub-computation [r] ran from [s1] with its own report [o1] *)
+Lemma sub_step {A B} o o1 s s1 (r : outE A) (f : A -> outE B) (P : A -> Prop) (Q : B -> Prop) :
+  pre o s s1 -> omono o1 o -> epost o1 s1 r P -> (forall a, P a -> epost o s (f a) Q) -> epost o s (bindE r f) Q.
+Proof.
+  intros Hp Ho Hr Hf. destruct r; cbn [bindE epost] in *; auto.
+  apply (epost_rebase o o1 s s1 (ErrE code asks) Q Hp Ho Hr).
+Qed.
+
+Lemma lift_step {A B} o s s1 (p : outcome A) (f : A -> outE B) (Q : B -> Prop) :
+  pre o s s1 -> (forall a, p = Ok a -> epost o s (f a) Q) -> epost o s (bindE (lift s1 p) f) Q.
+Proof.
+  intros Hp Hf. destruct p; cbn [lift bindE]; auto; try exact I. apply epost_err, Hp.
+Qed.
 Lemma Inv_after_expr e t s s' : nonempty t -> Inv c t s -> lmono c s s' -> Inv c (visit_expr e t) s'.
 Proof. intros Hn Hi Hl. eapply Inv_soft; eauto. apply visit_expr_soft, Hn. Qed.
 
@@ -162,56 +220,98 @@ Lemma vgood_step o s s' v : step_ok c o s s' -> vgood (s_clos s) v -> vgood (s_c
 Proof. intros H. apply vgood_mono, (step_ok_clos _ _ _ H). Qed.
 
 (* ---- map_eval ---- *)
-Lemma map_eval_ok ev : eval_spec ev -> forall l s vs s' t, map_eval ev s l = Ok (vs, s') -> sgood s -> nonempty t -> Inv c t s ->
-  step_ok c (t_out (visit_list l t)) s s' /\ Forall (vgood (s_clos s')) vs.
+
+(* ---- what the four mutually recursive functions guarantee ---- *)
+Definition EV (o : list name) (s : st) : value * st -> Prop :=
+  fun p => step_ok c o s (snd p) /\ vgood (s_clos (snd p)) (fst p).
+Definition SG (o : list name) (s : st) (t' : tstate) : signal * st -> Prop :=
+  fun p => step_ok c o s (snd p) /\ (fst p = SigNormal -> Inv c t' (snd p)).
+
+Definition xeval_spec (ev : st -> expr -> outE (value * st)) : Prop :=
+  forall s e t, sgood s -> nonempty t -> Inv c t s ->
+    epost (t_out (visit_expr e t)) s (ev s e) (EV (t_out (visit_expr e t)) s).
+
+Definition xcall_spec (cm : st -> macro -> option nat -> list value -> list (name * value) -> outE (value * st)) : Prop :=
+  forall s mc cl args kwargs, sgood s -> mgood (s_clos s) mc cl ->
+    Forall (vgood (s_clos s)) args -> Forall (fun kv => vgood (s_clos s) (snd kv)) kwargs ->
+    epost [] s (cm s mc cl args kwargs) (EV [] s).
+
+Definition xexec_spec (ex : st -> stmt -> outE (signal * st)) : Prop :=
+  forall s st t, sgood s -> nonempty t -> Inv c t s ->
+    epost (t_out (walk st t)) s (ex s st) (SG (t_out (walk st t)) s (walk st t)).
+
+Definition xexec_list_spec (ex : st -> list stmt -> outE (signal * st)) : Prop :=
+  forall s l t, sgood s -> nonempty t -> Inv c t s ->
+    epost (t_out (walk_list l t)) s (ex s l) (SG (t_out (walk_list l t)) s (walk_list l t)).
+
+(* evaluating a sub-expression [a] at [s1] (tracker [t]) inside a computation that started at [s] *)
+Lemma ev_step {B} ev o s s1 a t (f : value * st -> outE B) (Q : B -> Prop) :
+  xeval_spec ev -> pre o s s1 -> sgood s1 -> nonempty t -> Inv c t s1 -> omono (t_out (visit_expr a t)) o ->
+  (forall x s2, step_ok c (t_out (visit_expr a t)) s1 s2 -> vgood (s_clos s2) x -> Inv c (visit_expr a t) s2 ->
+                nonempty (visit_expr a t) -> sgood s2 -> pre o s s2 -> epost o s (f (x, s2)) Q) ->
+  epost o s (bindE (ev s1 a) f) Q.
 Proof.
-  intros Hev. induction l as [|x r IH]; intros s vs s' t H Hg Hn Hi; cbn [map_eval] in H.
-  - inversion H; subst. split; [apply step_ok_refl, Hg|constructor].
-  - apply bind_ok in H as ([v s1] & H1 & H). apply bind_ok in H as ([vs' s2] & H2 & H). inversion H; subst. clear H.
-    destruct (Hev _ _ _ _ t H1 Hg Hn Hi) as [A1 A2].
+  intros Hev Hp Hg Hn Hi Ho Hf. eapply sub_step; [exact Hp|exact Ho|apply (Hev s1 a t Hg Hn Hi)|].
+  intros [x s2] [A1 A2]. cbn [fst snd] in *. apply Hf; auto.
+  - eapply Inv_after_expr; [exact Hn|exact Hi|apply (step_ok_lmono _ _ _ A1)].
+  - apply visit_expr_nonempty, Hn.
+  - apply A1.
+  - eapply pre_step; eauto.
+Qed.
+
+(* ---- map_eval ---- *)
+Lemma xmap_eval_ok ev : xeval_spec ev -> forall l s t, sgood s -> nonempty t -> Inv c t s ->
+  epost (t_out (visit_list l t)) s (xmap_eval ev s l)
+        (fun p => step_ok c (t_out (visit_list l t)) s (snd p) /\ Forall (vgood (s_clos (snd p))) (fst p)).
+Proof.
+  intros Hev. induction l as [|x r IH]; intros s t Hg Hn Hi; cbn [xmap_eval].
+  - apply epost_ok. cbn. split; [apply step_ok_refl, Hg|constructor].
+  - change (visit_list (x :: r) t) with (visit_list r (visit_expr x t)).
     assert (Hn1 := visit_expr_nonempty x t Hn).
-    assert (I1 : Inv c (visit_expr x t) s1) by (eapply Inv_after_expr; [exact Hn|exact Hi|apply (step_ok_lmono _ _ _ A1)]).
-    destruct (IH _ _ _ _ H2 (step_ok_sgood _ _ _ A1) Hn1 I1) as [B1 B2].
-    change (visit_list (x :: r) t) with (visit_list r (visit_expr x t)). split.
-    + eapply step_ok_trans; eauto. apply tsoft_omono, visit_list_soft', Hn1.
+    assert (Om : omono (t_out (visit_expr x t)) (t_out (visit_list r (visit_expr x t)))) by (apply tsoft_omono, visit_list_soft', Hn1).
+    eapply (ev_step ev _ s s x t); [exact Hev|apply pre_refl|exact Hg|exact Hn|exact Hi|exact Om|].
+    intros v s1 A1 A2 A3 A4 A5 P1.
+    eapply sub_step; [exact P1|apply omono_refl|apply (IH s1 _ A5 A4 A3)|].
+    intros [vs s2] [B1 B2]. cbn [fst snd] in *. apply epost_ok. cbn [fst snd]. split.
+    + eapply step_ok_trans; eauto.
     + constructor; auto. eapply vgood_step; eauto.
 Qed.
 
-Lemma map_eval_kw_ok ev : eval_spec ev -> forall (l : list (name * expr)) s kvs s' t, map_eval_kw ev s l = Ok (kvs, s') -> sgood s -> nonempty t -> Inv c t s ->
-  step_ok c (t_out (visit_kw l t)) s s' /\ Forall (fun kv => vgood (s_clos s') (snd kv)) kvs.
+Lemma xmap_eval_kw_ok ev : xeval_spec ev -> forall (l : list (name * expr)) s t, sgood s -> nonempty t -> Inv c t s ->
+  epost (t_out (visit_kw l t)) s (xmap_eval_kw ev s l)
+        (fun p => step_ok c (t_out (visit_kw l t)) s (snd p) /\ Forall (fun kv => vgood (s_clos (snd p)) (snd kv)) (fst p)).
 Proof.
-  intros Hev. induction l as [|[k x] r IH]; intros s vs s' t H Hg Hn Hi; cbn [map_eval_kw] in H.
-  - inversion H; subst. split; [apply step_ok_refl, Hg|constructor].
-  - apply bind_ok in H as ([v s1] & H1 & H). apply bind_ok in H as ([vs' s2] & H2 & H). inversion H; subst. clear H.
-    destruct (Hev _ _ _ _ t H1 Hg Hn Hi) as [A1 A2].
+  intros Hev. induction l as [|[k x] r IH]; intros s t Hg Hn Hi; cbn [xmap_eval_kw].
+  - apply epost_ok. cbn. split; [apply step_ok_refl, Hg|constructor].
+  - change (visit_kw ((k, x) :: r) t) with (visit_kw r (visit_expr x t)).
     assert (Hn1 := visit_expr_nonempty x t Hn).
-    assert (I1 : Inv c (visit_expr x t) s1) by (eapply Inv_after_expr; [exact Hn|exact Hi|apply (step_ok_lmono _ _ _ A1)]).
-    destruct (IH _ _ _ _ H2 (step_ok_sgood _ _ _ A1) Hn1 I1) as [B1 B2].
-    change (visit_kw ((k, x) :: r) t) with (visit_kw r (visit_expr x t)). split.
-    + eapply step_ok_trans; eauto. apply tsoft_omono, visit_kw_soft', Hn1.
+    assert (Om : omono (t_out (visit_expr x t)) (t_out (visit_kw r (visit_expr x t)))) by (apply tsoft_omono, visit_kw_soft', Hn1).
+    eapply (ev_step ev _ s s x t); [exact Hev|apply pre_refl|exact Hg|exact Hn|exact Hi|exact Om|].
+    intros v s1 A1 A2 A3 A4 A5 P1.
+    eapply sub_step; [exact P1|apply omono_refl|apply (IH s1 _ A5 A4 A3)|].
+    intros [vs s2] [B1 B2]. cbn [fst snd] in *. apply epost_ok. cbn [fst snd]. split.
+    + eapply step_ok_trans; eauto.
     + constructor; auto. cbn [snd]. eapply vgood_step; eauto.
 Qed.
 
 (* ---- comparison chains ---- *)
-Lemma cmp_chain_ok ev : eval_spec ev -> forall (l : list (cmpop * expr)) left s v s' t, cmp_chain m ev left s l = Ok (v, s') -> sgood s -> nonempty t -> Inv c t s ->
-  step_ok c (t_out (visit_kw l t)) s s' /\ vgood (s_clos s') v.
+Lemma xcmp_chain_ok ev : xeval_spec ev -> forall (l : list (cmpop * expr)) left s t, sgood s -> nonempty t -> Inv c t s ->
+  epost (t_out (visit_kw l t)) s (xcmp_chain m ev left s l) (EV (t_out (visit_kw l t)) s).
 Proof.
-  intros Hev. induction l as [|[op x] r IH]; intros left s v s' t H Hg Hn Hi; cbn [cmp_chain] in H.
-  - inversion H; subst. split; [apply step_ok_refl, Hg|exact I].
-  - apply bind_ok in H as ([y s2] & H1 & H). apply bind_ok in H as (b & H2 & H).
-    destruct (Hev _ _ _ _ t H1 Hg Hn Hi) as [A1 A2].
+  intros Hev. induction l as [|[op x] r IH]; intros left s t Hg Hn Hi; cbn [xcmp_chain].
+  - apply epost_ok. split; [apply step_ok_refl, Hg|exact I].
+  - change (visit_kw ((op, x) :: r) t) with (visit_kw r (visit_expr x t)).
     assert (Hn1 := visit_expr_nonempty x t Hn).
-    change (visit_kw ((op, x) :: r) t) with (visit_kw r (visit_expr x t)).
     assert (Om : omono (t_out (visit_expr x t)) (t_out (visit_kw r (visit_expr x t)))) by (apply tsoft_omono, visit_kw_soft', Hn1).
-    assert (Stop : forall w, Ok (VBool w, s2) = Ok (v, s') -> step_ok c (t_out (visit_kw r (visit_expr x t))) s s' /\ vgood (s_clos s') v).
-    { intros w E. inversion E; subst. split; [eapply step_ok_weaken; eauto|exact I]. }
-    destruct r as [|p r']; [eapply Stop; eauto|]. destruct b; [|eapply Stop; eauto].
-    assert (I1 : Inv c (visit_expr x t) s2) by (eapply Inv_after_expr; [exact Hn|exact Hi|apply (step_ok_lmono _ _ _ A1)]).
-    destruct (IH _ _ _ _ _ H (step_ok_sgood _ _ _ A1) Hn1 I1) as [B1 B2].
-    split; auto. eapply step_ok_trans; eauto.
+    eapply (ev_step ev _ s s x t); [exact Hev|apply pre_refl|exact Hg|exact Hn|exact Hi|exact Om|].
+    intros y s2 A1 A2 A3 A4 A5 P1.
+    apply lift_step; [exact P1|]. intros b _.
+    assert (Stop : forall w, epost (t_out (visit_kw r (visit_expr x t))) s (OkE (VBool w, s2)) (EV (t_out (visit_kw r (visit_expr x t))) s)).
+    { intros w. apply epost_ok. split; [eapply step_ok_weaken; eauto|exact I]. }
+    destruct r as [|p r']; [apply Stop|]. destruct b; [|apply Stop].
+    eapply epost_imp; [|eapply epost_rebase; [exact P1|apply omono_refl|apply (IH y s2 _ A5 A4 A3)]].
+    intros [v s3] [B1 B2]. split; auto. cbn [snd] in *. eapply step_ok_trans; eauto.
 Qed.
-
-(* ---- macro arguments ---- *)
 Lemma bind_params_good C kwargs : Forall (fun kv => vgood C (snd kv)) kwargs -> forall ps pos bound,
   bind_params kwargs ps pos = Ok bound -> Forall (vgood C) pos ->
   Forall (fun kv => vgood C (snd kv)) bound /\ map fst bound = ps.
@@ -242,43 +342,45 @@ Proof.
     eapply tstep_trans; [apply S1|]. eapply tstep_trans; [apply S2|]. apply IH. eapply tstep_nonempty, S2.
 Qed.
 
-Lemma store_args_ok ev ds : eval_spec ev -> forall l s s' t, store_args ev ds s l = Ok s' -> sgood s -> nonempty t -> Inv c t s ->
+
+Lemma xstore_args_ok ev ds : xeval_spec ev -> forall l s t, sgood s -> nonempty t -> Inv c t s ->
   Forall (fun kv => vgood (s_clos s) (snd kv)) l ->
-  step_ok c (t_out (visit_params_l ds (map fst l) t)) s s' /\ Inv c (visit_params_l ds (map fst l) t) s'.
+  epost (t_out (visit_params_l ds (map fst l) t)) s (xstore_args ev ds s l)
+        (fun s' => step_ok c (t_out (visit_params_l ds (map fst l) t)) s s' /\ Inv c (visit_params_l ds (map fst l) t) s').
 Proof.
-  intros Hev. induction l as [|[p v] r IH]; intros s s' t H Hg Hn Hi Hl; cbn [store_args] in H.
-  - inversion H; subst. split; [apply step_ok_refl, Hg|exact Hi].
+  intros Hev. induction l as [|[p v] r IH]; intros s t Hg Hn Hi Hl; cbn [xstore_args].
+  - apply epost_ok. split; [apply step_ok_refl, Hg|exact Hi].
   - inversion Hl as [|? ? Hv Hr]; subst. cbn [snd] in Hv. cbn [map fst visit_params_l fold_left].
     rewrite default_of_assoc.
     set (t1 := match assoc p ds with Some d => visit_expr d t | None => t end).
     assert (Soft1 : tsoft t t1) by (unfold t1; destruct (assoc p ds); [apply visit_expr_soft, Hn|apply tsoft_refl, Hn]).
     assert (Hn1 : nonempty t1) by (eapply tsoft_nonempty, Soft1).
     assert (Hn2 : nonempty (t_assign p t1)) by (eapply tstep_nonempty, tstep_assign, Hn1).
-    assert (Om2 : omono (t_out (t_assign p t1)) (t_out (visit_params_l ds (map fst r) (t_assign p t1)))).
-    { apply tstep_omono, visit_params_l_step, Hn2. }
-    assert (Plain : forall s0, store_args ev ds (store s p v) r = Ok s0 -> s0 = s' ->
-              step_ok c (t_out (visit_params_l ds (map fst r) (t_assign p t1))) s s' /\ Inv c (visit_params_l ds (map fst r) (t_assign p t1)) s').
-    { intros s0 H0 ->. assert (S1 := store_step_ok c (t_out (t_assign p t1)) s p v Hg Hv).
+    set (T := visit_params_l ds (map fst r) (t_assign p t1)).
+    assert (Om2 : omono (t_out (t_assign p t1)) (t_out T)) by (apply tstep_omono, visit_params_l_step, Hn2).
+    assert (Plain : epost (t_out T) s (xstore_args ev ds (store s p v) r) (fun s' => step_ok c (t_out T) s s' /\ Inv c T s')).
+    { assert (S1 := store_step_ok c (t_out (t_assign p t1)) s p v Hg Hv).
       assert (I1 : Inv c (t_assign p t1) (store s p v)).
       { eapply Inv_assign; [exact Hn1| |apply (step_ok_lmono _ _ _ S1)|apply store_local, Hg]. eapply Inv_soft; eauto. apply lmono_refl. }
       assert (Hr' : Forall (fun kv => vgood (s_clos (store s p v)) (snd kv)) r).
       { eapply Forall_impl; [|apply Hr]. intros kv. apply vgood_mono, store_clos_ext. }
-      destruct (IH _ _ _ H0 (step_ok_sgood _ _ _ S1) Hn2 I1 Hr') as [B1 B2]. split; auto. eapply step_ok_trans; eauto. }
-    destruct (is_undef v); [|eapply Plain; eauto].
-    destruct (assoc p ds) as [d|] eqn:Ed; [|eapply Plain; eauto].
-    apply bind_ok in H as ([dv s1] & H1 & H).
-    destruct (Hev _ _ _ _ t H1 Hg Hn Hi) as [A1 A2]. fold t1 in A1.
-    assert (S1 := store_step_ok c (t_out (t_assign p t1)) s1 p dv (step_ok_sgood _ _ _ A1) A2).
+      eapply epost_imp; [|eapply epost_rebase; [apply (pre_of_step _ _ _ (step_ok_weaken c _ _ _ _ S1 Om2))|apply omono_refl|apply (IH _ _ (step_ok_sgood _ _ _ S1) Hn2 I1 Hr')]].
+      intros s' [B1 B2]. split; auto. eapply step_ok_trans; eauto. }
+    destruct (is_undef v); [|exact Plain]. destruct (assoc p ds) as [d|] eqn:Ed; [|exact Plain].
+    assert (O1 : omono (t_out t1) (t_out T)).
+    { eapply omono_trans; [apply tstep_omono, tstep_assign, Hn1|exact Om2]. }
+    eapply (ev_step ev _ s s d t); [exact Hev|apply pre_refl|exact Hg|exact Hn|exact Hi|exact O1|].
+    intros dv s1 A1 A2 A3 A4 A5 P1. fold t1 in A1, A3, A4.
+    assert (S1 := store_step_ok c (t_out (t_assign p t1)) s1 p dv A5 A2).
     assert (I1 : Inv c (t_assign p t1) (store s1 p dv)).
-    { eapply Inv_assign; [exact Hn1| |apply (step_ok_lmono _ _ _ S1)|apply store_local, (step_ok_sgood _ _ _ A1)].
-      eapply Inv_soft; eauto. apply (step_ok_lmono _ _ _ A1). }
+    { eapply Inv_assign; [exact Hn1|exact A3|apply (step_ok_lmono _ _ _ S1)|apply store_local, A5]. }
     assert (Hr' : Forall (fun kv => vgood (s_clos (store s1 p dv)) (snd kv)) r).
     { eapply Forall_impl; [|apply Hr]. intros kv Hkv. eapply vgood_step; [apply S1|]. eapply vgood_step; eauto. }
-    destruct (IH _ _ _ H (step_ok_sgood _ _ _ S1) Hn2 I1 Hr') as [B1 B2]. split; auto.
-    eapply step_ok_trans; [|apply B1|exact Om2]. eapply step_ok_trans; [apply A1|apply S1|]. apply tstep_omono, tstep_assign, Hn1.
+    assert (A1S : step_ok c (t_out T) s (store s1 p dv)).
+    { eapply step_ok_trans; [apply A1|apply (step_ok_weaken c _ _ _ _ S1 Om2)|]. exact O1. }
+    eapply epost_imp; [|eapply epost_rebase; [apply (pre_of_step _ _ _ A1S)|apply omono_refl|apply (IH _ _ (step_ok_sgood _ _ _ S1) Hn2 I1 Hr')]].
+    intros s' [B1 B2]. split; auto. eapply step_ok_trans; [apply A1S|apply B1|apply omono_refl].
 Qed.
-
-(* ---- if / elif / else ---- *)
 Lemma walk_list_omono l t : nonempty t -> omono (t_out t) (t_out (walk_list l t)).
 Proof. intros Hn. apply tstep_omono, walk_list_step', Hn. Qed.
 
@@ -292,101 +394,116 @@ Qed.
 Lemma scoped_body_soft' body t : nonempty t -> tsoft t (t_pop (walk_list body (t_push t))).
 Proof. intros Hn. apply scoped_body_soft; auto. apply Forall_forall. intros s _. apply walk_step. Qed.
 
-Lemma if_arms_ok ev ex els : eval_spec ev -> exec_list_spec ex ->
-  forall arms s sg s' t, if_arms m ev ex els s arms = Ok (sg, s') -> sgood s -> nonempty t -> Inv c t s ->
-  step_ok c (t_out (walk_arms els arms t)) s s' /\ (sg = SigNormal -> Inv c (walk_arms els arms t) s').
+
+(* ---- if / elif / else ---- *)
+Lemma xif_arms_ok ev ex els : xeval_spec ev -> xexec_list_spec ex ->
+  forall arms s t, sgood s -> nonempty t -> Inv c t s ->
+  epost (t_out (walk_arms els arms t)) s (xif_arms m ev ex els s arms) (SG (t_out (walk_arms els arms t)) s (walk_arms els arms t)).
 Proof.
-  intros Hev Hex. induction arms as [|[cnd body] r IH]; intros s sg s' t H Hg Hn Hi; cbn [if_arms walk_arms] in *.
-  - destruct els as [b|]; [eapply Hex; eauto|]. inversion H; subst. split; [apply step_ok_refl, Hg|auto].
-  - apply bind_ok in H as ([v s1] & H1 & H). apply bind_ok in H as (b & H2 & H). cbn zeta.
-    destruct (Hev _ _ _ _ t H1 Hg Hn Hi) as [A1 _].
-    set (t1 := visit_expr cnd t) in *. assert (Hn1 : nonempty t1) by (apply visit_expr_nonempty, Hn).
-    assert (I1 : Inv c t1 s1) by (eapply Inv_after_expr; [exact Hn|exact Hi|apply (step_ok_lmono _ _ _ A1)]).
-    set (t2 := t_pop (walk_list body (t_push t1))) in *.
+  intros Hev Hex. induction arms as [|[cnd body] r IH]; intros s t Hg Hn Hi; cbn [xif_arms walk_arms].
+  - destruct els as [b|]; [apply Hex; auto|]. apply epost_ok. split; [apply step_ok_refl, Hg|auto].
+  - cbn zeta.
+    set (t1 := visit_expr cnd t). assert (Hn1 : nonempty t1) by (apply visit_expr_nonempty, Hn).
+    set (t2 := t_pop (walk_list body (t_push t1))).
     assert (Soft2 : tsoft t1 t2) by (apply scoped_body_soft', Hn1).
     assert (Hn2 : nonempty t2) by (eapply tsoft_nonempty, Soft2).
     set (T := match r, els with [], None => t_pop (t_push t2) | _, _ => t_pop (walk_arms els r (t_push t2)) end).
     assert (SoftT : tsoft t2 T).
     { unfold T. destruct r; [destruct els|]; apply tstep_push_pop; auto; try apply walk_arms_step', push_nonempty. apply tstep_refl, push_nonempty. }
-    assert (G1 : s_env s1 <> []) by (apply (step_ok_sgood _ _ _ A1)).
+    assert (O2T := tsoft_omono _ _ SoftT). assert (O12 := tsoft_omono _ _ Soft2).
+    assert (O1T : omono (t_out t1) (t_out T)) by (eapply omono_trans; eauto).
+    eapply (ev_step ev _ s s cnd t); [exact Hev|apply pre_refl|exact Hg|exact Hn|exact Hi|exact O1T|].
+    intros v s1 A1 _ I1 _ G1 P1. fold t1 in A1, I1.
+    assert (A1T : step_ok c (t_out T) s s1) by (eapply step_ok_weaken; eauto).
+    apply lift_step; [exact P1|]. intros b _.
     destruct b.
     + (* this arm runs: its body is walked in a scope of its own *)
       assert (Ip : Inv c (t_push t1) s1) by (eapply Inv_push; [exact I1|apply lmono_refl]).
-      destruct (Hex _ _ _ _ (t_push t1) H (step_ok_sgood _ _ _ A1) (push_nonempty t1) Ip) as [B1 _].
-      split.
-      * eapply step_ok_trans; [apply A1| |].
-        -- eapply step_ok_weaken; [apply B1|]. eapply omono_trans; [|apply tsoft_omono, SoftT]. unfold t2. intros x Hx. exact Hx.
-        -- eapply omono_trans; [apply tsoft_omono, Soft2|apply tsoft_omono, SoftT].
-      * intros _. eapply Inv_soft; [eapply tsoft_trans; [apply Soft2|apply SoftT]|exact I1|apply (step_ok_lmono _ _ _ B1)].
+      eapply epost_imp; [|eapply epost_rebase; [exact P1| |apply (Hex s1 body (t_push t1) G1 (push_nonempty t1) Ip)]].
+      * intros [sg s'] [B1 _]. cbn [fst snd] in *. split.
+        -- eapply step_ok_trans; [apply A1T| |apply omono_refl]. eapply step_ok_weaken; [apply B1|]. exact O2T.
+        -- intros _. eapply Inv_soft; [eapply tsoft_trans; [apply Soft2|apply SoftT]|exact I1|apply (step_ok_lmono _ _ _ B1)].
+      * exact O2T.
     + (* the remaining arms *)
       assert (I2 : Inv c t2 s1) by (eapply Inv_soft; [apply Soft2|exact I1|apply lmono_refl]).
+      assert (Ip : Inv c (t_push t2) s1) by (eapply Inv_push; [exact I2|apply lmono_refl]).
+      assert (Rest : epost (t_out T) s (xif_arms m ev ex els s1 r) (SG (t_out T) s T) ->
+                     epost (t_out T) s (xif_arms m ev ex els s1 r) (SG (t_out T) s T)) by auto.
       destruct r as [|a r'].
       * destruct els as [eb|].
-        -- assert (Ip : Inv c (t_push t2) s1) by (eapply Inv_push; [exact I2|apply lmono_refl]).
-           destruct (IH _ _ _ (t_push t2) H (step_ok_sgood _ _ _ A1) (push_nonempty t2) Ip) as [B1 _]. split.
-           ++ eapply step_ok_trans; [apply A1| |].
-              ** eapply step_ok_weaken; [apply B1|]. unfold T. intros x Hx. exact Hx.
-              ** eapply omono_trans; [apply tsoft_omono, Soft2|apply tsoft_omono, SoftT].
+        -- eapply epost_imp; [|eapply epost_rebase; [exact P1| |apply (IH s1 (t_push t2) G1 (push_nonempty t2) Ip)]].
+           ++ intros [sg s'] [B1 _]. cbn [fst snd] in *. split.
+              ** eapply step_ok_trans; [apply A1T| |apply omono_refl]. eapply step_ok_weaken; [apply B1|]. unfold T. intros x Hx. exact Hx.
+              ** intros _. eapply Inv_soft; [apply SoftT|exact I2|apply (step_ok_lmono _ _ _ B1)].
+           ++ unfold T. intros x Hx. exact Hx.
+        -- cbn [xif_arms]. apply epost_ok. split; [exact A1T|]. intros _. eapply Inv_soft; [apply SoftT|exact I2|apply lmono_refl].
+      * eapply epost_imp; [|eapply epost_rebase; [exact P1| |apply (IH s1 (t_push t2) G1 (push_nonempty t2) Ip)]].
+        -- intros [sg s'] [B1 _]. cbn [fst snd] in *. split.
+           ++ eapply step_ok_trans; [apply A1T| |apply omono_refl]. eapply step_ok_weaken; [apply B1|]. unfold T. intros x Hx. exact Hx.
            ++ intros _. eapply Inv_soft; [apply SoftT|exact I2|apply (step_ok_lmono _ _ _ B1)].
-        -- cbn [if_arms] in H. inversion H; subst. split.
-           ++ eapply step_ok_weaken; [apply A1|]. eapply omono_trans; [apply tsoft_omono, Soft2|apply tsoft_omono, SoftT].
-           ++ intros _. eapply Inv_soft; [apply SoftT|exact I2|apply lmono_refl].
-      * assert (Ip : Inv c (t_push t2) s1) by (eapply Inv_push; [exact I2|apply lmono_refl]).
-        destruct (IH _ _ _ (t_push t2) H (step_ok_sgood _ _ _ A1) (push_nonempty t2) Ip) as [B1 _]. split.
-        -- eapply step_ok_trans; [apply A1| |].
-           ++ eapply step_ok_weaken; [apply B1|]. unfold T. intros x Hx. exact Hx.
-           ++ eapply omono_trans; [apply tsoft_omono, Soft2|apply tsoft_omono, SoftT].
-        -- intros _. eapply Inv_soft; [apply SoftT|exact I2|apply (step_ok_lmono _ _ _ B1)].
+        -- unfold T. intros x Hx. exact Hx.
 Qed.
 
 (* ---- with ---- *)
-Lemma with_binds_ok ev : eval_spec ev -> forall binds s s' t, with_binds ev s binds = Ok s' -> sgood s -> nonempty t -> Inv c t s ->
-  step_ok c (t_out (visit_binds binds t)) s s' /\ Inv c (visit_binds binds t) s'.
+Lemma xwith_binds_ok ev : xeval_spec ev -> forall binds s t, sgood s -> nonempty t -> Inv c t s ->
+  epost (t_out (visit_binds binds t)) s (xwith_binds ev s binds)
+        (fun s' => step_ok c (t_out (visit_binds binds t)) s s' /\ Inv c (visit_binds binds t) s').
 Proof.
-  intros Hev. induction binds as [|[x e] r IH]; intros s s' t H Hg Hn Hi; cbn [with_binds] in H.
-  - inversion H; subst. split; [apply step_ok_refl, Hg|exact Hi].
-  - apply bind_ok in H as ([v s1] & H1 & H).
-    destruct (Hev _ _ _ _ t H1 Hg Hn Hi) as [A1 A2].
+  intros Hev. induction binds as [|[x e] r IH]; intros s t Hg Hn Hi; cbn [xwith_binds].
+  - apply epost_ok. split; [apply step_ok_refl, Hg|exact Hi].
+  - change (visit_binds ((x, e) :: r) t) with (visit_binds r (t_assign x (visit_expr e t))).
     assert (Hn1 := visit_expr_nonempty e t Hn).
-    assert (S1 := store_step_ok c (t_out (t_assign x (visit_expr e t))) s1 x v (step_ok_sgood _ _ _ A1) A2).
-    assert (I1 : Inv c (t_assign x (visit_expr e t)) (store s1 x v)).
-    { eapply Inv_assign; [exact Hn1| |apply (step_ok_lmono _ _ _ S1)|apply store_local, (step_ok_sgood _ _ _ A1)].
-      eapply Inv_after_expr; [exact Hn|exact Hi|apply (step_ok_lmono _ _ _ A1)]. }
     assert (Hn2 : nonempty (t_assign x (visit_expr e t))) by (eapply tstep_nonempty, tstep_assign, Hn1).
-    destruct (IH _ _ _ H (step_ok_sgood _ _ _ S1) Hn2 I1) as [B1 B2].
-    change (visit_binds ((x, e) :: r) t) with (visit_binds r (t_assign x (visit_expr e t))). split; auto.
-    eapply step_ok_trans; [|apply B1|apply tstep_omono, visit_binds_step, Hn2].
-    eapply step_ok_trans; [apply A1|apply S1|apply tstep_omono, tstep_assign, Hn1].
+    set (T := visit_binds r (t_assign x (visit_expr e t))).
+    assert (O2 : omono (t_out (t_assign x (visit_expr e t))) (t_out T)) by (apply tstep_omono, visit_binds_step, Hn2).
+    assert (O1 : omono (t_out (visit_expr e t)) (t_out T)).
+    { eapply omono_trans; [apply tstep_omono, tstep_assign, Hn1|exact O2]. }
+    eapply (ev_step ev _ s s e t); [exact Hev|apply pre_refl|exact Hg|exact Hn|exact Hi|exact O1|].
+    intros v s1 A1 A2 A3 A4 A5 P1.
+    assert (S1 := store_step_ok c (t_out (t_assign x (visit_expr e t))) s1 x v A5 A2).
+    assert (I1 : Inv c (t_assign x (visit_expr e t)) (store s1 x v)).
+    { eapply Inv_assign; [exact A4|exact A3|apply (step_ok_lmono _ _ _ S1)|apply store_local, A5]. }
+    assert (A1S : step_ok c (t_out T) s (store s1 x v)).
+    { eapply step_ok_trans; [apply A1|apply (step_ok_weaken c _ _ _ _ S1 O2)|exact O1]. }
+    eapply epost_imp; [|eapply epost_rebase; [apply (pre_of_step _ _ _ A1S)|apply omono_refl|apply (IH _ _ (step_ok_sgood _ _ _ S1) Hn2 I1)]].
+    intros s' [B1 B2]. split; auto. eapply step_ok_trans; [apply A1S|apply B1|apply omono_refl].
 Qed.
 
 (* ---- for: the filter pass ---- *)
 Definition loop_frame0 (n : Z) (expose : bool) : frame := mkFrame [] (Some (0, n, expose)) None None false.
 
-Lemma filter_items_ok ev tg fe t1 s0 : eval_spec ev -> nonempty t1 -> Inv c t1 s0 ->
-  forall l s kept s', filter_items m ev tg fe s l = Ok (kept, s') -> sgood s -> lmono c s0 s -> Forall (vgood (s_clos s)) l ->
-  step_ok c (t_out (visit_expr fe (assign_target tg (t_push t1)))) s s' /\ Forall (vgood (s_clos s')) kept.
+Lemma pre_push o s F : f_base F = false -> pre o s (push_frame s F).
+Proof. intros Hb. eapply pre_eq; [apply pre_refl|reflexivity|apply push_lmono, Hb]. Qed.
+
+Lemma xfilter_items_ok ev tg fe t1 s0 : xeval_spec ev -> nonempty t1 -> Inv c t1 s0 ->
+  forall l s, sgood s -> lmono c s0 s -> Forall (vgood (s_clos s)) l ->
+  epost (t_out (visit_expr fe (assign_target tg (t_push t1)))) s (xfilter_items m ev tg fe s l)
+        (fun p => step_ok c (t_out (visit_expr fe (assign_target tg (t_push t1)))) s (snd p) /\ Forall (vgood (s_clos (snd p))) (fst p)).
 Proof.
-  intros Hev Hn1 Hi0. set (tf := assign_target tg (t_push t1)).
+  intros Hev Hn1 Hi0. set (tf := assign_target tg (t_push t1)). set (o := t_out (visit_expr fe tf)).
   assert (Hnf : nonempty tf) by (eapply tstep_nonempty, assign_target_step, push_nonempty).
-  induction l as [|item r IH]; intros s kept s' H Hg Hl Hv; cbn [filter_items] in H.
-  - inversion H; subst. split; [apply step_ok_refl, Hg|constructor].
-  - cbn zeta in H. apply bind_ok in H as (sf1 & H1 & H). apply bind_ok in H as ([v sf2] & H2 & H).
-    apply bind_ok in H as (keep & H3 & H). apply bind_ok in H as ([rest s3] & H4 & H). inversion H; subst. clear H.
-    inversion Hv as [|? ? Hitem Hrest]; subst.
-    set (F := mkFrame [] (Some (0, 0, false)) None None false) in *.
-    set (sf := push_frame s F) in *.
+  induction l as [|item r IH]; intros s Hg Hl Hv; cbn [xfilter_items].
+  - apply epost_ok. split; [apply step_ok_refl, Hg|constructor].
+  - cbn zeta. inversion Hv as [|? ? Hitem Hrest]; subst.
+    set (F := mkFrame [] (Some (0, 0, false)) None None false).
+    set (sf := push_frame s F).
     assert (Gf : sgood sf) by (apply push_sgood; [exact Hg|apply fresh_frame_good]).
     assert (Lf : lmono c s sf) by (apply push_lmono; reflexivity).
-    destruct (bind_target_ok (t_out (visit_expr fe tf)) tg sf item sf1 H1 Gf Hitem) as [A1 A2].
+    assert (Pf : pre o s sf) by (apply pre_push; reflexivity).
+    apply lift_step; [exact Pf|]. intros sf1 H1.
+    destruct (bind_target_ok o tg sf item sf1 H1 Gf Hitem) as [A1 A2].
     assert (If : Inv c tf sf1).
     { apply (A2 (t_push t1) s0 (push_nonempty t1)); [eapply Inv_push; [exact Hi0|apply lmono_refl]|]. eapply lmono_trans; eauto. }
-    destruct (Hev _ _ _ _ tf H2 (step_ok_sgood _ _ _ A1) Hnf If) as [B1 B2].
-    assert (AB : step_ok c (t_out (visit_expr fe tf)) sf sf2) by (eapply step_ok_trans; [apply A1|apply B1|apply omono_refl]).
+    eapply (ev_step ev o s sf1 fe tf); [exact Hev|eapply pre_step; [exact Pf|exact A1|apply omono_refl]|apply A1|exact Hnf|exact If|apply omono_refl|].
+    intros v sf2 B1 _ _ _ G2 P2. fold o in B1.
+    apply lift_step; [exact P2|]. intros keep _.
+    assert (AB : step_ok c o sf sf2) by (eapply step_ok_trans; [apply A1|apply B1|apply omono_refl]).
     assert (P := scoped_step _ s F sf2 Hg eq_refl AB).
     assert (Hrest' : Forall (vgood (s_clos (pop_frame sf2))) r).
     { eapply Forall_impl; [|apply Hrest]. intros w. eapply vgood_step; eauto. }
     assert (Ll : lmono c s0 (pop_frame sf2)) by (eapply lmono_trans; [apply Hl|apply (step_ok_lmono _ _ _ P)]).
-    destruct (IH _ _ _ H4 (step_ok_sgood _ _ _ P) Ll Hrest') as [C1 C2]. split.
+    eapply sub_step; [apply (pre_of_step _ _ _ P)|apply omono_refl|apply (IH _ (step_ok_sgood _ _ _ P) Ll Hrest')|].
+    intros [rest s3] [C1 C2]. cbn [fst snd] in *. apply epost_ok. cbn [fst snd]. split.
     + eapply step_ok_trans; [apply P|apply C1|apply omono_refl].
     + destruct keep; auto. constructor; auto. eapply vgood_step; [apply C1|]. eapply vgood_step; eauto.
 Qed.
@@ -395,12 +512,12 @@ Qed.
 Definition loop_state (n : Z) (O : list name) (s2 s : st) : Prop :=
   sext (push_frame s2 (loop_frame0 n true)) s /\ sgood s /\ asks_in (AP c O s2) s2 s.
 
-Lemma loop_items_ok ex tg body n flt t1 s2 : exec_list_spec ex -> nonempty t1 -> Inv c t1 s2 -> sgood s2 ->
+Lemma xloop_items_ok ex tg body n flt t1 s2 : xexec_list_spec ex -> nonempty t1 -> Inv c t1 s2 -> sgood s2 ->
   let tfv := match flt with Some f => visit_expr f (assign_target tg (t_push t1)) | None => assign_target tg (t_push t1) end in
   let tb := t_assign N_loop tfv in
   let O := t_out (walk_list body tb) in
-  forall l s i s', loop_items ex tg body n s i l = Ok s' -> loop_state n O s2 s -> Forall (vgood (s_clos s)) l ->
-  loop_state n O s2 s'.
+  forall l s i, loop_state n O s2 s -> Forall (vgood (s_clos s)) l ->
+  epost O s2 (xloop_items ex tg body n s i l) (loop_state n O s2).
 Proof.
   intros Hex Hn1 Hi2 Hg2 tfv tb O.
   assert (Hna : nonempty (assign_target tg (t_push t1))) by (eapply tstep_nonempty, assign_target_step, push_nonempty).
@@ -408,14 +525,13 @@ Proof.
   { unfold tfv. destruct flt; [apply visit_expr_soft, Hna|apply tsoft_refl, Hna]. }
   assert (Hnv : nonempty tfv) by (eapply tsoft_nonempty, Softv).
   assert (Hnb : nonempty tb) by (eapply tstep_nonempty, tstep_assign, Hnv).
-  induction l as [|item r IH]; intros s i s' H Hs Hv; cbn [loop_items] in H.
-  - inversion H; subst. exact Hs.
-  - cbn zeta in H. destruct Hs as (X1 & X2 & X3).
+  induction l as [|item r IH]; intros s i Hs Hv; cbn [xloop_items].
+  - apply epost_ok. exact Hs.
+  - cbn zeta. destruct Hs as (X1 & X2 & X3).
     destruct X1 as (f0 & e0 & f & E1 & E2 & FE & CE). cbn [push_frame s_env s_clos] in E1, CE. inversion E1; subst f0 e0. clear E1.
-    rewrite E2 in H.
-    set (Fi := mkFrame [] (Some (i, n, true)) (f_closure f) (f_closure_ctx f) false) in *.
-    set (sit := with_env s (Fi :: s_env s2)) in *.
-    apply bind_ok in H as (s3 & H1 & H). apply bind_ok in H as ([sg s4] & H2 & H).
+    rewrite E2.
+    set (Fi := mkFrame [] (Some (i, n, true)) (f_closure f) (f_closure_ctx f) false).
+    set (sit := with_env s (Fi :: s_env s2)).
     assert (Xit : sext (push_frame s2 (loop_frame0 n true)) sit).
     { exists (loop_frame0 n true), (s_env s2), Fi. split; [reflexivity|]. split; [reflexivity|]. split; [|exact CE].
       destruct FE as (F1 & F2 & F3 & F4). split; [intros x Hx; cbn in Hx; congruence|]. split; [reflexivity|]. split; [exact F3|reflexivity]. }
@@ -424,7 +540,9 @@ Proof.
       rewrite E2 in G2. inversion G2 as [|? ? Gf Gr]; subst. constructor; auto. split; [cbn; intros; discriminate|]. apply Gf. }
     assert (L2it : lmono c s2 sit).
     { eapply lmono_trans; [apply (push_lmono c s2 (loop_frame0 n true) eq_refl)|apply sext_lmono, Xit]. }
+    assert (Pit : pre O s2 sit) by (split; [eapply asks_in_eq; [reflexivity| |exact X3]; reflexivity|exact L2it]).
     inversion Hv as [|? ? Hitem Hrest]; subst.
+    apply lift_step; [exact Pit|]. intros s3 H1.
     destruct (bind_target_ok O tg sit item s3 H1 Git Hitem) as [A1 A2].
     assert (Ia : Inv c (assign_target tg (t_push t1)) s3).
     { apply (A2 (t_push t1) s2 (push_nonempty t1)); [eapply Inv_push; [exact Hi2|apply lmono_refl]|exact L2it]. }
@@ -433,138 +551,170 @@ Proof.
       destruct (step_ok_sext _ _ _ A1) as (fa & ea & fa' & Ea1 & Ea2 & FEa & _).
       unfold sit, with_env in Ea1. cbn [s_env] in Ea1. inversion Ea1; subst fa ea.
       eapply loop_exposed_local; [exact Ea2|]. apply FEa. reflexivity. }
-    destruct (Hex _ _ _ _ tb H2 (step_ok_sgood _ _ _ A1) Hnb Ib) as [B1 _]. fold O in B1.
-    assert (L23 : lmono c s2 s3) by (eapply lmono_trans; [exact L2it|apply (step_ok_lmono _ _ _ A1)]).
+    assert (P3 : pre O s2 s3) by (eapply pre_step; [exact Pit|exact A1|apply omono_refl]).
+    eapply sub_step; [exact P3|apply omono_refl|apply (Hex s3 body tb (step_ok_sgood _ _ _ A1) Hnb Ib)|].
+    intros [sg s4] [B1 _]. cbn [fst snd] in *. fold O in B1.
     assert (Hs4 : loop_state n O s2 s4).
     { split; [eapply sext_trans; [exact Xit|]; eapply sext_trans; [apply A1|apply B1]|]. split; [apply B1|].
-      eapply asks_in_trans; [exact X3|]. eapply asks_in_trans.
-      - eapply asks_in_eq; [| |eapply asks_in_weaken; [|apply A1]]; try reflexivity.
-        intros x. apply AP_weaken; [apply omono_refl|exact L2it].
-      - eapply asks_in_weaken; [|apply B1]. intros x. apply AP_weaken; [apply omono_refl|exact L23]. }
+      apply (pre_step O O s2 s3 s4 P3 B1 (omono_refl _)). }
     assert (Hrest4 : Forall (vgood (s_clos s4)) r).
     { eapply Forall_impl; [|apply Hrest]. intros w Hw. eapply vgood_step; [apply B1|]. eapply vgood_step; [apply A1|]. exact Hw. }
-    destruct sg; [eapply IH; eauto| |eapply IH; eauto]. inversion H; subst. exact Hs4.
+    destruct sg; [apply IH; auto|apply epost_ok; exact Hs4|apply IH; auto].
 Qed.
 
 (* ---- the induction on the fuel ---- *)
-Ltac bst H p E := apply bind_ok in H as (p & E & H).
-
 Lemma omono_nil o : omono [] o.
 Proof. intros x H. discriminate. Qed.
 
-Lemma eval1 ev s a x s1 t : eval_spec ev -> ev s a = Ok (x, s1) -> sgood s -> nonempty t -> Inv c t s ->
-  step_ok c (t_out (visit_expr a t)) s s1 /\ vgood (s_clos s1) x /\ Inv c (visit_expr a t) s1 /\ nonempty (visit_expr a t) /\ sgood s1.
+(* the rest of an evaluation is one more sub-expression *)
+Lemma ev_tail ev o s s1 a t : xeval_spec ev -> step_ok c o s s1 -> nonempty t -> Inv c t s1 -> omono (t_out (visit_expr a t)) o ->
+  epost o s (ev s1 a) (EV o s).
 Proof.
-  intros Hev H Hg Hn Hi. destruct (Hev _ _ _ _ t H Hg Hn Hi) as [A1 A2]. split; auto. split; auto. split.
-  - eapply Inv_after_expr; [exact Hn|exact Hi|apply (step_ok_lmono _ _ _ A1)].
-  - split; [apply visit_expr_nonempty, Hn|apply A1].
+  intros Hev A1 Hn Hi Ho.
+  apply (epost_imp o s (ev s1 a) (EV (t_out (visit_expr a t)) s1)).
+  - intros [v s2] [B1 B2]. split; auto. cbn [snd] in *. eapply step_ok_trans; [apply A1|eapply step_ok_weaken; [apply B1|exact Ho]|apply omono_refl].
+  - eapply epost_rebase; [apply (pre_of_step _ _ _ A1)|exact Ho|]. apply (Hev s1 a t (step_ok_sgood _ _ _ A1) Hn Hi).
 Qed.
 
-Lemma eval2 ev s a b x y s1 s2 t : eval_spec ev -> ev s a = Ok (x, s1) -> ev s1 b = Ok (y, s2) -> sgood s -> nonempty t -> Inv c t s ->
-  step_ok c (t_out (visit_expr b (visit_expr a t))) s s2 /\ vgood (s_clos s2) x /\ vgood (s_clos s2) y /\
-  Inv c (visit_expr b (visit_expr a t)) s2 /\ nonempty (visit_expr b (visit_expr a t)) /\ sgood s2.
-Proof.
-  intros Hev H1 H2 Hg Hn Hi.
-  destruct (eval1 _ _ _ _ _ t Hev H1 Hg Hn Hi) as (A1 & A2 & A3 & A4 & A5).
-  destruct (eval1 _ _ _ _ _ _ Hev H2 A5 A4 A3) as (B1 & B2 & B3 & B4 & B5).
-  split; [eapply step_ok_trans; [apply A1|apply B1|apply visit_expr_omono, A4]|]. split; [eapply vgood_step; eauto|]. auto.
-Qed.
+Definition xall_specs (fuel : nat) : Prop :=
+  (forall esc, xeval_spec (xeval c fuel esc)) /\ (forall esc, xcall_spec (xcall_macro c fuel esc)) /\
+  (forall esc, xexec_spec (xexec c fuel esc)) /\ (forall esc, xexec_list_spec (xexec_list c fuel esc)).
 
-Definition all_specs (fuel : nat) : Prop :=
-  (forall esc, eval_spec (eval c fuel esc)) /\ (forall esc, call_spec (call_macro c fuel esc)) /\
-  (forall esc, exec_spec (exec c fuel esc)) /\ (forall esc, exec_list_spec (exec_list c fuel esc)).
+Lemma handle_undefined_good C md b v : u_handle_undefined md b = Ok v -> vgood C v.
+Proof. unfold u_handle_undefined. destruct md; destruct b; intros H; inversion H; exact I. Qed.
 
-Lemma eval_step fuel : all_specs fuel -> forall esc, eval_spec (eval c (S fuel) esc).
+Lemma xeval_step fuel : xall_specs fuel -> forall esc, xeval_spec (xeval c (S fuel) esc).
 Proof.
-  intros (IHe & IHm & _ & _) esc s e v s' t H Hg Hn Hi. assert (He := IHe esc).
-  rewrite visit_expr_eq. cbn [eval] in H. destruct e.
-  - (* const *) assert (s' = s /\ vgood (s_clos s) v) as [-> Hv] by (destruct l; inversion H; subst; split; auto; exact I).
-    split; [apply step_ok_refl, Hg|exact Hv].
-  - (* var *) destruct (lookup c s x) as [v0 s1] eqn:E. inversion H; subst. clear H.
-    destruct (lookup_ok (t_out (t_lookup x t)) s x v0 s' E Hg) as (A1 & A2 & _).
+  intros (IHe & IHm & _ & _) esc s e t Hg Hn Hi. assert (He := IHe esc).
+  rewrite visit_expr_eq. cbn [xeval]. fold (xcall_macro c). destruct e.
+  - (* const *) destruct l; apply epost_ok; (split; [apply step_ok_refl, Hg|exact I]).
+  - (* var *) destruct (lookup c s x) as [v0 s1] eqn:E.
+    destruct (lookup_ok (t_out (t_lookup x t)) s x v0 s1 E Hg) as (A1 & A2 & _).
     { intros Hl. eapply lookup_late; [exact Hi|apply lmono_refl|exact Hl]. }
-    split; auto. destruct v0; [apply A2; reflexivity|exact I].
-  - (* list *) bst H p1 E1. destruct p1 as [vs s1]. inversion H; subst. clear H.
-    destruct (map_eval_ok _ He _ _ _ _ t E1 Hg Hn Hi) as [A1 A2]. split; auto. apply vgood_list, A2.
-  - (* neg *) bst H p1 E1. destruct p1 as [x s1]. destruct (eval1 _ _ _ _ _ t He E1 Hg Hn Hi) as (A1 & _).
-    destruct x; inversion H; subst. split; [exact A1|exact I].
-  - (* not *) bst H p1 E1. destruct p1 as [x s1]. bst H b E2. inversion H; subst. destruct (eval1 _ _ _ _ _ t He E1 Hg Hn Hi) as (A1 & _).
-    split; [exact A1|exact I].
-  - (* bin *) bst H p1 E1. destruct p1 as [x s1]. bst H p2 E2. destruct p2 as [y s2]. bst H u E3. bst H r E4. inversion H; subst.
-    destruct (eval2 _ _ _ _ _ _ _ _ t He E1 E2 Hg Hn Hi) as (A1 & _). split; [exact A1|]. eapply do_bin_good; eauto.
-  - (* cmp *) bst H p1 E1. destruct p1 as [x s1]. destruct (eval1 _ _ _ _ _ t He E1 Hg Hn Hi) as (A1 & A2 & A3 & A4 & A5).
-    destruct (cmp_chain_ok _ He _ _ _ _ _ _ H A5 A4 A3) as [B1 B2]. split; auto.
-    eapply step_ok_trans; [apply A1|apply B1|apply tsoft_omono, visit_kw_soft', A4].
-  - (* and *) bst H p1 E1. destruct p1 as [x s1]. bst H b E2. destruct (eval1 _ _ _ _ _ t He E1 Hg Hn Hi) as (A1 & A2 & A3 & A4 & A5).
-    destruct b.
-    + destruct (He _ _ _ _ _ H A5 A4 A3) as [B1 B2]. split; auto. eapply step_ok_trans; [apply A1|apply B1|apply visit_expr_omono, A4].
-    + inversion H; subst. split; auto. eapply step_ok_weaken; [apply A1|apply visit_expr_omono, A4].
-  - (* or *) bst H p1 E1. destruct p1 as [x s1]. bst H b E2. destruct (eval1 _ _ _ _ _ t He E1 Hg Hn Hi) as (A1 & A2 & A3 & A4 & A5).
-    destruct b.
-    + inversion H; subst. split; auto. eapply step_ok_weaken; [apply A1|apply visit_expr_omono, A4].
-    + destruct (He _ _ _ _ _ H A5 A4 A3) as [B1 B2]. split; auto. eapply step_ok_trans; [apply A1|apply B1|apply visit_expr_omono, A4].
-  - (* if-expression *) bst H p1 E1. destruct p1 as [x s1]. bst H b E2. destruct (eval1 _ _ _ _ _ t He E1 Hg Hn Hi) as (A1 & A2 & A3 & A4 & A5).
-    cbn zeta. set (t1 := visit_expr e1 t) in *. set (t2 := visit_expr e2 t1).
-    assert (Hn2 : nonempty t2) by (apply visit_expr_nonempty, A4).
-    assert (O12 : omono (t_out t1) (t_out t2)) by (apply visit_expr_omono, A4).
-    assert (OT : omono (t_out t2) (t_out (match f with Some f0 => visit_expr f0 t2 | None => t2 end))).
-    { destruct f; [apply visit_expr_omono, Hn2|apply omono_refl]. }
-    destruct b.
-    + destruct (He _ _ _ _ _ H A5 A4 A3) as [B1 B2]. split; auto.
-      eapply step_ok_weaken; [|exact OT]. eapply step_ok_trans; [apply A1|apply B1|exact O12].
-    + destruct f as [f0|].
-      * assert (I2 : Inv c t2 s1) by (eapply Inv_after_expr; [exact A4|exact A3|apply lmono_refl]).
-        destruct (He _ _ _ _ _ H A5 Hn2 I2) as [B1 B2]. split; auto.
-        eapply step_ok_trans; [apply A1|apply B1|]. eapply omono_trans; [exact O12|apply visit_expr_omono, Hn2].
-      * inversion H; subst. split; [|exact I]. eapply step_ok_weaken; [apply A1|exact O12].
-  - (* item *) bst H p1 E1. destruct p1 as [x s1]. bst H p2 E2. destruct p2 as [k s2].
-    destruct (eval2 _ _ _ _ _ _ _ _ t He E1 E2 Hg Hn Hi) as (A1 & A2 & A3 & _).
+    apply epost_ok. split; [exact A1|]. cbn [fst snd]. destruct v0; [apply A2; reflexivity|exact I].
+  - (* list *)
+    eapply sub_step; [apply pre_refl|apply omono_refl|apply (xmap_eval_ok _ He items s t Hg Hn Hi)|].
+    intros [vs s1] [A1 A2]. apply epost_ok. split; [exact A1|apply vgood_list, A2].
+  - (* neg *)
+    eapply (ev_step _ _ s s e t); [exact He|apply pre_refl|exact Hg|exact Hn|exact Hi|apply omono_refl|].
+    intros x s1 A1 _ _ _ _ P1. destruct x; try (apply epost_err; exact P1). apply epost_ok. split; [exact A1|exact I].
+  - (* not *)
+    eapply (ev_step _ _ s s e t); [exact He|apply pre_refl|exact Hg|exact Hn|exact Hi|apply omono_refl|].
+    intros x s1 A1 _ _ _ _ P1. apply lift_step; [exact P1|]. intros b _. apply epost_ok. split; [exact A1|exact I].
+  - (* bin *)
+    assert (Hn1 := visit_expr_nonempty e1 t Hn).
+    eapply (ev_step _ _ s s e1 t); [exact He|apply pre_refl|exact Hg|exact Hn|exact Hi|apply visit_expr_omono, Hn1|].
+    intros x s1 A1 A2 A3 A4 A5 P1.
+    eapply (ev_step _ _ s s1 e2 _); [exact He|exact P1|exact A5|exact A4|exact A3|apply omono_refl|].
+    intros y s2 B1 B2 _ _ _ P2.
+    apply lift_step; [exact P2|]. intros u _. apply lift_step; [exact P2|]. intros r Hr. apply epost_ok. split.
+    + eapply step_ok_trans; [apply A1|apply B1|apply visit_expr_omono, A4].
+    + eapply do_bin_good; eauto.
+  - (* cmp *)
+    assert (Hn1 := visit_expr_nonempty e t Hn).
+    assert (Om : omono (t_out (visit_expr e t)) (t_out (visit_kw rest (visit_expr e t)))) by (apply tsoft_omono, visit_kw_soft', Hn1).
+    eapply (ev_step _ _ s s e t); [exact He|apply pre_refl|exact Hg|exact Hn|exact Hi|exact Om|].
+    intros x s1 A1 A2 A3 A4 A5 P1.
+    eapply epost_imp; [|eapply epost_rebase; [exact P1|apply omono_refl|apply (xcmp_chain_ok _ He rest x s1 _ A5 A4 A3)]].
+    intros [v s2] [B1 B2]. split; auto. cbn [snd] in *. eapply step_ok_trans; eauto.
+  - (* and *)
+    assert (Hn1 := visit_expr_nonempty e1 t Hn). assert (Om := visit_expr_omono e2 _ Hn1).
+    eapply (ev_step _ _ s s e1 t); [exact He|apply pre_refl|exact Hg|exact Hn|exact Hi|exact Om|].
+    intros x s1 A1 A2 A3 A4 A5 P1. apply lift_step; [exact P1|]. intros b _.
+    assert (A1T := step_ok_weaken c _ _ _ _ A1 Om).
+    destruct b; [apply (ev_tail _ _ s s1 e2 _ He A1T A4 A3); apply omono_refl|]. apply epost_ok. split; [exact A1T|exact A2].
+  - (* or *)
+    assert (Hn1 := visit_expr_nonempty e1 t Hn). assert (Om := visit_expr_omono e2 _ Hn1).
+    eapply (ev_step _ _ s s e1 t); [exact He|apply pre_refl|exact Hg|exact Hn|exact Hi|exact Om|].
+    intros x s1 A1 A2 A3 A4 A5 P1. apply lift_step; [exact P1|]. intros b _.
+    assert (A1T := step_ok_weaken c _ _ _ _ A1 Om).
+    destruct b; [apply epost_ok; split; [exact A1T|exact A2]|]. apply (ev_tail _ _ s s1 e2 _ He A1T A4 A3). apply omono_refl.
+  - (* if-expression *)
+    cbn zeta. set (t1 := visit_expr e1 t). set (t2 := visit_expr e2 t1).
+    assert (Hn1 : nonempty t1) by (apply visit_expr_nonempty, Hn).
+    assert (Hn2 : nonempty t2) by (apply visit_expr_nonempty, Hn1).
+    assert (O12 : omono (t_out t1) (t_out t2)) by (apply visit_expr_omono, Hn1).
+    set (T := match f with Some f0 => visit_expr f0 t2 | None => t2 end).
+    assert (O2T : omono (t_out t2) (t_out T)) by (unfold T; destruct f; [apply visit_expr_omono, Hn2|apply omono_refl]).
+    assert (O1T : omono (t_out t1) (t_out T)) by (eapply omono_trans; eauto).
+    eapply (ev_step _ _ s s e1 t); [exact He|apply pre_refl|exact Hg|exact Hn|exact Hi|exact O1T|].
+    intros x s1 A1 A2 A3 A4 A5 P1. fold t1 in A1, A3. apply lift_step; [exact P1|]. intros b _.
+    assert (A1T := step_ok_weaken c _ _ _ _ A1 O1T).
+    destruct b; [apply (ev_tail _ _ s s1 e2 t1 He A1T Hn1 A3 O2T)|].
+    destruct f as [f0|].
+    + assert (I2 : Inv c t2 s1) by (eapply Inv_after_expr; [exact Hn1|exact A3|apply lmono_refl]).
+      apply (ev_tail _ _ s s1 f0 t2 He A1T Hn2 I2). apply omono_refl.
+    + apply epost_ok. split; [exact A1T|exact I].
+  - (* item *)
+    assert (Hn1 := visit_expr_nonempty e1 t Hn).
+    eapply (ev_step _ _ s s e1 t); [exact He|apply pre_refl|exact Hg|exact Hn|exact Hi|apply visit_expr_omono, Hn1|].
+    intros x s1 A1 A2 A3 A4 A5 P1.
+    eapply (ev_step _ _ s s1 e2 _); [exact He|exact P1|exact A5|exact A4|exact A3|apply omono_refl|].
+    intros k s2 B1 B2 _ _ _ P2.
+    assert (AB : step_ok c (t_out (visit_expr e2 (visit_expr e1 t))) s s2) by (eapply step_ok_trans; [apply A1|apply B1|apply visit_expr_omono, A4]).
     destruct (match x, k with VList l, VInt z => idx_list l z | _, _ => None end) eqn:Ei.
-    + inversion H; subst. split; auto. destruct x; try discriminate. destruct k; try discriminate.
-      eapply idx_list_good; [apply vgood_list, A2|exact Ei].
-    + bst H u E3. inversion H; subst. split; auto. unfold u_handle_undefined in E3.
-      destruct (c_mode c); destruct (is_undef x); inversion E3; exact I.
-  - (* attr *) bst H p1 E1. destruct p1 as [x s1]. destruct (eval1 _ _ _ _ _ t He E1 Hg Hn Hi) as (A1 & A2 & _).
+    + apply epost_ok. split; [exact AB|]. cbn [fst snd]. destruct x; try discriminate. destruct k; try discriminate.
+      eapply idx_list_good; [apply vgood_list; eapply vgood_step; [apply B1|exact A2]|exact Ei].
+    + apply lift_step; [exact P2|]. intros u Hu. apply epost_ok. split; [exact AB|]. eapply handle_undefined_good; eauto.
+  - (* attr *)
+    eapply (ev_step _ _ s s e t); [exact He|apply pre_refl|exact Hg|exact Hn|exact Hi|apply omono_refl|].
+    intros x s1 A1 A2 _ _ _ P1.
     destruct (match x with VLoop i n => loop_attr i n a | _ => None end) eqn:Ei.
-    + inversion H; subst. split; auto. destruct x; try discriminate. eapply loop_attr_good; eauto.
-    + bst H u E3. inversion H; subst. split; auto. unfold u_handle_undefined in E3.
-      destruct (c_mode c); destruct (is_undef x); inversion E3; exact I.
-  - (* filter *) bst H p1 E1. destruct p1 as [x s1]. bst H p2 E2. destruct p2 as [vs s2]. bst H r E3. inversion H; subst.
-    destruct (eval1 _ _ _ _ _ t He E1 Hg Hn Hi) as (A1 & A2 & A3 & A4 & A5).
-    destruct (map_eval_ok _ He _ _ _ _ _ E2 A5 A4 A3) as [B1 B2]. split.
-    + eapply step_ok_trans; [apply A1|apply B1|apply tsoft_omono, visit_list_soft', A4].
-    + eapply do_filter_good; [exact E3| |exact B2]. eapply vgood_step; eauto.
-  - (* test *) bst H p1 E1. destruct p1 as [x s1]. bst H p2 E2. destruct p2 as [vs s2]. bst H r E3. inversion H; subst.
-    destruct (eval1 _ _ _ _ _ t He E1 Hg Hn Hi) as (A1 & A2 & A3 & A4 & A5).
-    destruct (map_eval_ok _ He _ _ _ _ _ E2 A5 A4 A3) as [B1 B2]. split; [|exact I].
-    eapply step_ok_trans; [apply A1|apply B1|apply tsoft_omono, visit_list_soft', A4].
-  - (* call *) bst H p1 E1. destruct p1 as [vs s1]. bst H p2 E2. destruct p2 as [kvs s2].
-    destruct (lookup c s2 f) as [fv s3] eqn:El.
+    + apply epost_ok. split; [exact A1|]. destruct x; try discriminate. eapply loop_attr_good; eauto.
+    + apply lift_step; [exact P1|]. intros u Hu. apply epost_ok. split; [exact A1|]. eapply handle_undefined_good; eauto.
+  - (* filter *)
+    assert (Hn1 := visit_expr_nonempty e t Hn).
+    assert (Om : omono (t_out (visit_expr e t)) (t_out (visit_list args (visit_expr e t)))) by (apply tsoft_omono, visit_list_soft', Hn1).
+    eapply (ev_step _ _ s s e t); [exact He|apply pre_refl|exact Hg|exact Hn|exact Hi|exact Om|].
+    intros x s1 A1 A2 A3 A4 A5 P1.
+    eapply sub_step; [exact P1|apply omono_refl|apply (xmap_eval_ok _ He args s1 _ A5 A4 A3)|].
+    intros [vs s2] [B1 B2]. cbn [fst snd] in *.
+    assert (AB : step_ok c (t_out (visit_list args (visit_expr e t))) s s2) by (eapply step_ok_trans; [apply A1|apply B1|exact Om]).
+    apply lift_step; [apply (pre_of_step _ _ _ AB)|]. intros r Hr. apply epost_ok. split; [exact AB|].
+    eapply xdo_filter_good; [exact Hr| |exact B2]. eapply vgood_step; [apply B1|exact A2].
+  - (* test *)
+    assert (Hn1 := visit_expr_nonempty e t Hn).
+    assert (Om : omono (t_out (visit_expr e t)) (t_out (visit_list args (visit_expr e t)))) by (apply tsoft_omono, visit_list_soft', Hn1).
+    eapply (ev_step _ _ s s e t); [exact He|apply pre_refl|exact Hg|exact Hn|exact Hi|exact Om|].
+    intros x s1 A1 A2 A3 A4 A5 P1.
+    eapply sub_step; [exact P1|apply omono_refl|apply (xmap_eval_ok _ He args s1 _ A5 A4 A3)|].
+    intros [vs s2] [B1 B2]. cbn [fst snd] in *.
+    assert (AB : step_ok c (t_out (visit_list args (visit_expr e t))) s s2) by (eapply step_ok_trans; [apply A1|apply B1|exact Om]).
+    apply lift_step; [apply (pre_of_step _ _ _ AB)|]. intros r Hr. apply epost_ok. split; [exact AB|exact I].
+  - (* call *)
     set (t1 := t_lookup f t). assert (S1 : tsoft t t1) by (apply tsoft_lookup, Hn).
     assert (Hn1 : nonempty t1) by (eapply tsoft_nonempty, S1).
     assert (I1 : Inv c t1 s) by (eapply Inv_soft; [apply S1|exact Hi|apply lmono_refl]).
-    destruct (map_eval_ok _ He _ _ _ _ _ E1 Hg Hn1 I1) as [A1 A2].
-    set (t2 := visit_list args t1) in *. assert (S2 : tsoft t1 t2) by (apply visit_list_soft', Hn1).
+    set (t2 := visit_list args t1). assert (S2 : tsoft t1 t2) by (apply visit_list_soft', Hn1).
     assert (Hn2 : nonempty t2) by (eapply tsoft_nonempty, S2).
+    set (T := visit_kw kwargs t2). assert (S3 : tsoft t2 T) by (apply visit_kw_soft', Hn2).
+    assert (O2T := tsoft_omono _ _ S3).
+    eapply sub_step; [apply pre_refl|exact O2T|apply (xmap_eval_ok _ He args s t1 Hg Hn1 I1)|].
+    intros [vs s1] [A1 A2]. cbn [fst snd] in *. fold t2 in A1.
     assert (I2 : Inv c t2 s1) by (eapply Inv_soft; [apply S2|exact I1|apply (step_ok_lmono _ _ _ A1)]).
-    destruct (map_eval_kw_ok _ He _ _ _ _ _ E2 (step_ok_sgood _ _ _ A1) Hn2 I2) as [B1 B2].
-    set (T := visit_kw kwargs t2) in *. assert (S3 : tsoft t2 T) by (apply visit_kw_soft', Hn2).
-    assert (AB : step_ok c (t_out T) s s2) by (eapply step_ok_trans; [apply A1|apply B1|apply tsoft_omono, S3]).
+    assert (A1T := step_ok_weaken c _ _ _ _ A1 O2T).
+    eapply sub_step; [apply (pre_of_step _ _ _ A1T)|apply omono_refl|apply (xmap_eval_kw_ok _ He kwargs s1 t2 (step_ok_sgood _ _ _ A1) Hn2 I2)|].
+    intros [kvs s2] [B1 B2]. cbn [fst snd] in *. fold T in B1.
+    assert (AB : step_ok c (t_out T) s s2) by (eapply step_ok_trans; [apply A1T|apply B1|apply omono_refl]).
+    destruct (lookup c s2 f) as [fv s3] eqn:El.
     destruct (lookup_ok (t_out T) s2 f fv s3 El (step_ok_sgood _ _ _ AB)) as (C1 & C2 & C3 & C4 & _).
-    { intros Hl. apply (tsoft_omono _ _ S3), (tsoft_omono _ _ S2). eapply lookup_late; [exact Hi|apply (step_ok_lmono _ _ _ AB)|exact Hl]. }
+    { intros Hl. apply O2T, (tsoft_omono _ _ S2). eapply lookup_late; [exact Hi|apply (step_ok_lmono _ _ _ AB)|exact Hl]. }
     assert (ABC : step_ok c (t_out T) s s3) by (eapply step_ok_trans; [apply AB|apply C1|apply omono_refl]).
-    destruct fv as [fv|]; [|discriminate]. destruct fv; try discriminate.
+    assert (P3 := pre_of_step _ _ _ ABC).
+    destruct fv as [fv|]; [|apply epost_err; exact P3]. destruct fv; try (apply epost_err; exact P3).
     + (* a macro *)
       assert (Gm : mgood (s_clos s3) m0 closure) by (apply (C2 _ eq_refl)).
       assert (Gv : Forall (vgood (s_clos s3)) vs).
       { eapply Forall_impl; [|apply A2]. intros w Hw. rewrite C4. eapply vgood_step; [apply B1|exact Hw]. }
       assert (Gk : Forall (fun kv => vgood (s_clos s3) (snd kv)) kvs) by (rewrite C4; exact B2).
-      destruct (IHm esc _ _ _ _ _ _ _ H (step_ok_sgood _ _ _ ABC) Gm Gv Gk) as [D1 D2]. split; auto.
+      eapply epost_imp; [|eapply epost_rebase; [exact P3|apply omono_nil|apply (IHm esc s3 m0 closure vs kvs (step_ok_sgood _ _ _ ABC) Gm Gv Gk)]].
+      intros [v s4] [D1 D2]. split; auto. cbn [snd] in *.
       eapply step_ok_trans; [apply ABC| |apply omono_refl]. eapply step_ok_weaken; [apply D1|apply omono_nil].
     + (* range *)
-      destruct (f0 =? N_range); [|discriminate]. destruct vs as [|v1 vs']; [discriminate|]. destruct v1; try discriminate.
-      destruct vs'; [|discriminate]. destruct kvs; [|discriminate]. inversion H; subst. split; auto.
-      apply vgood_list, range_list_good.
+      destruct (f0 =? N_range); [|apply epost_err; exact P3].
+      destruct vs as [|v1 vs']; [apply epost_err; exact P3|]. destruct v1; try (apply epost_err; exact P3).
+      destruct vs'; [|apply epost_err; exact P3]. destruct kvs; [|apply epost_err; exact P3].
+      apply epost_ok. split; [exact ABC|]. apply vgood_list, range_list_good.
 Qed.
 
 Lemma assoc_good C (kw : list (name * value)) p v : Forall (fun kv => vgood C (snd kv)) kw -> assoc p kw = Some v -> vgood C v.
@@ -572,16 +722,16 @@ Proof.
   induction 1 as [|[k w] r Hw Hr IH]; cbn [assoc]; [discriminate|]. destruct (p =? k); auto. intros E. inversion E; subst. exact Hw.
 Qed.
 
-Lemma call_step fuel : all_specs fuel -> forall esc, call_spec (call_macro c (S fuel) esc).
+Lemma xcall_step fuel : xall_specs fuel -> forall esc, xcall_spec (xcall_macro c (S fuel) esc).
 Proof.
-  intros (IHe & _ & _ & IHl) esc s mc cl args kwargs v s' H Hg Hm Ha Hk.
-  cbn [call_macro] in H.
-  destruct (Nat.ltb _ _); [discriminate|]. bst H bound E1.
-  match type of H with context [if ?b then _ else _] => destruct b end; [discriminate|].
-  bst H s1 E2. bst H p3 E3. destruct p3 as [sg s2]. inversion H; subst. clear H.
-  set (caller_v := match assoc N_caller kwargs with Some v => v | None => VUndef end) in *.
-  set (top := mkFrame (if m_caller mc then [(N_caller, caller_v)] else []) None None cl false) in *.
-  set (s0 := mkSt [top; base_frame] (s_clos s) [] (s_asks s)) in *.
+  intros (IHe & _ & _ & IHl) esc s mc cl args kwargs Hg Hm Ha Hk.
+  cbn [xcall_macro]. fold (xeval c) (xexec_list c).
+  destruct (Nat.ltb _ _); [apply epost_err, pre_refl|].
+  apply lift_step; [apply pre_refl|]. intros bound E1.
+  match goal with |- context [if ?b then _ else _] => destruct b end; [apply epost_err, pre_refl|].
+  set (caller_v := match assoc N_caller kwargs with Some v => v | None => VUndef end).
+  set (top := mkFrame (if m_caller mc then [(N_caller, caller_v)] else []) None None cl false).
+  set (s0 := mkSt [top; base_frame] (s_clos s) [] (s_asks s)).
   set (ps := m_params mc) in *. set (ds := m_defaults mc) in *. set (body := m_body mc) in *.
   assert (Gcv : vgood (s_clos s) caller_v).
   { unfold caller_v. destruct (assoc N_caller kwargs) eqn:Ea; [eapply assoc_good; eauto|exact I]. }
@@ -596,37 +746,45 @@ Proof.
   assert (I0 : Inv c tm0 s0) by (intros x Hx; cbn in Hx; discriminate).
   destruct (bind_params_good (s_clos s) kwargs Hk _ _ _ E1 Ha) as [Gb Eb].
   assert (Gr : Forall (fun kv => vgood (s_clos s0) (snd kv)) (rev bound)) by (apply Forall_rev, Gb).
-  destruct (store_args_ok _ ds (IHe esc) _ _ _ tm0 E2 G0 Hn0 I0 Gr) as [A1 A2].
-  rewrite map_rev, Eb in A1, A2.
-  change (visit_params_l ds (rev ps) tm0) with (visit_params ps ds tm0) in A1, A2.
+  pose proof (xstore_args_ok _ ds (IHe esc) (rev bound) s0 tm0 G0 Hn0 I0 Gr) as SA.
+  rewrite map_rev, Eb in SA.
+  change (visit_params_l ds (rev ps) tm0) with (visit_params ps ds tm0) in SA.
   set (tm1 := visit_params ps ds tm0) in *.
   assert (Hn1 : nonempty tm1) by (eapply tstep_nonempty, visit_params_step, Hn0).
-  destruct (IHl esc _ _ _ _ tm1 E3 (step_ok_sgood _ _ _ A1) Hn1 A2) as [B1 _].
-  change (t_out (walk_list body tm1)) with (closure_raw ps ds body) in B1.
-  assert (AB : step_ok c (closure_raw ps ds body) s0 s2).
-  { eapply step_ok_trans; [apply A1|apply B1|]. apply (walk_list_omono body tm1 Hn1). }
+  set (CR := closure_raw ps ds body).
+  assert (O1 : omono (t_out tm1) CR) by (apply (walk_list_omono body tm1 Hn1)).
   (* every name the macro can ask for is in its closure (or is `caller`): nothing is asked *)
-  assert (Loc : forall x, mem x (closure_raw ps ds body) = true -> localb c s0 x = true).
+  assert (Loc : forall x, mem x CR = true -> localb c s0 x = true).
   { intros x Hx. unfold localb, s0. cbn [s_env s_clos]. rewrite load_cons. unfold frame_find, top. cbn [f_locals f_loop f_closure_ctx].
     destruct Hm as [Hm1 Hm2]. fold ps ds body in Hm1, Hm2.
     destruct (x =? N_caller) eqn:Ec.
-    - apply Z.eqb_eq in Ec. subst x. unfold uses_caller in Hm1. rewrite Hx in Hm1. rewrite Hm1. cbn [assoc]. rewrite Z.eqb_refl. reflexivity.
+    - apply Z.eqb_eq in Ec. subst x. unfold uses_caller in Hm1. fold CR in Hm1. rewrite Hx in Hm1. rewrite Hm1. cbn [assoc]. rewrite Z.eqb_refl. reflexivity.
     - destruct (assoc x (if m_caller mc then [(N_caller, caller_v)] else [])); [reflexivity|].
       assert (Hin : In x (macro_closure ps ds body)).
       { unfold macro_closure. apply filter_In. split; [apply mem_In, Hx|rewrite Ec; reflexivity]. }
       destruct (Hm2 x Hin) as (id & -> & Hc). destruct (cget (s_clos s) id x); [reflexivity|congruence]. }
-  destruct AB as (X1 & X2 & (l & El & Hl)).
-  assert (l = []) as ->.
-  { destruct l as [|x l']; [reflexivity|]. exfalso. destruct (Hl x (or_introl eq_refl)) as [H1 H2]. rewrite (Loc x H1) in H2. discriminate. }
-  cbn [app] in El. unfold s0 in El. cbn [s_asks] in El.
-  assert (CE : clos_ext (s_clos s) (s_clos s2)) by (apply (sext_clos _ _ X1)).
-  split; [|exact I]. split; [|split].
-  - apply eext_sext; [apply Hg|]. split; [reflexivity|exact CE].
-  - destruct Hg as (G1 & G2 & G3). unfold sgood. cbn [s_env s_clos]. split; auto. split; [|apply X2].
-    eapply Forall_impl; [|apply G2]. intros fr. apply frame_good_mono, CE.
-  - apply asks_in_refl. cbn [s_asks]. exact El.
+  match goal with |- epost _ _ ?W _ => set (WW := W) end.
+  assert (Inner : epost CR s0 WW (fun p => exists s2, p = (VStr esc (output_of s2), mkSt (s_env s) (s_clos s2) (s_out s) (s_asks s2)) /\ step_ok c CR s0 s2)).
+  { unfold WW. eapply sub_step; [apply pre_refl|exact O1|exact SA|].
+    intros s1 [A1 A2].
+    assert (A1C := step_ok_weaken c _ _ _ _ A1 O1).
+    eapply sub_step; [apply (pre_of_step _ _ _ A1C)|apply omono_refl|apply (IHl esc s1 body tm1 (step_ok_sgood _ _ _ A1) Hn1 A2)|].
+    intros [sg s2] [B1 _]. cbn [fst snd] in *. apply epost_ok. exists s2. split; [reflexivity|].
+    eapply step_ok_trans; [apply A1C|apply B1|apply omono_refl]. }
+  assert (NoAsk : forall st', asks_in (AP c CR s0) s0 st' -> s_asks st' = s_asks s).
+  { intros st' (l & El & Hl). destruct l as [|x l']; [exact El|]. exfalso.
+    destruct (Hl x (or_introl eq_refl)) as [H1 H2]. rewrite (Loc x H1) in H2. discriminate. }
+  destruct WW as [[v s']|code a| |]; cbn [epost] in *; try exact I.
+  - destruct Inner as (s2 & E & AB). inversion E; subst v s'. clear E.
+    assert (El := NoAsk s2 (proj2 (proj2 AB))).
+    assert (CE : clos_ext (s_clos s) (s_clos s2)) by (apply (sext_clos _ _ (proj1 AB))).
+    split; [|exact I]. cbn [snd]. split; [|split].
+    + apply eext_sext; [apply Hg|]. split; [reflexivity|exact CE].
+    + destruct Hg as (G1 & G2 & G3). unfold sgood. cbn [s_env s_clos]. split; auto. split; [|apply AB].
+      eapply Forall_impl; [|apply G2]. intros fr. apply frame_good_mono, CE.
+    + apply asks_in_refl. cbn [s_asks]. exact El.
+  - apply asks_in_refl. apply (NoAsk (ast a) Inner).
 Qed.
-
 Lemma same_ctx_lmono s s' : same_ctx s s' -> lmono c s s'.
 Proof. intros E x. rewrite (same_ctx_localb c s s' x E). auto. Qed.
 Lemma same_ctx_sym s s' : same_ctx s s' -> same_ctx s' s.
@@ -660,26 +818,34 @@ Qed.
 Lemma visit_macro_step' dc ps ds body t : nonempty t -> tstep t (visit_macro dc ps ds body t).
 Proof. intros Hn. apply visit_macro_step; auto. apply Forall_forall. intros st _. apply walk_step. Qed.
 
-Lemma exec_step fuel : all_specs fuel -> forall esc, exec_spec (exec c (S fuel) esc).
+
+Lemma pre_same o s s1 s2 : pre o s s1 -> same_ctx s1 s2 -> pre o s s2.
+Proof. intros P E. eapply pre_eq; [exact P|apply E|apply same_ctx_lmono, E]. Qed.
+
+Lemma bindE_assoc {A B C} (r : outE A) (f : A -> outE B) (g : B -> outE C) :
+  bindE (bindE r f) g = bindE r (fun a => bindE (f a) g).
+Proof. destruct r; reflexivity. Qed.
+
+Lemma xexec_step fuel : xall_specs fuel -> forall esc, xexec_spec (xexec c (S fuel) esc).
 Proof.
-  intros (IHe & IHm & _ & IHl) esc s st sg s' t H Hg Hn Hi. assert (He := IHe esc).
-  rewrite walk_eq. cbn [exec] in H. destruct st.
-  - (* raw *) inversion H; subst. split; [apply step_ok_same; [exact Hg|apply emit_same]|].
+  intros (IHe & IHm & _ & IHl) esc s st t Hg Hn Hi. assert (He := IHe esc).
+  rewrite walk_eq. cbn [xexec]. fold (xeval c) (xexec_list c) (xcall_macro c). destruct st.
+  - (* raw *) apply epost_ok. split; [apply step_ok_same; [exact Hg|apply emit_same]|].
     intros _. eapply Inv_lmono; [exact Hi|apply same_ctx_lmono, emit_same].
-  - (* emit *) bst H p1 E1. destruct p1 as [v s1]. destruct (_ && _); [discriminate|]. inversion H; subst.
-    destruct (eval1 _ _ _ _ _ t He E1 Hg Hn Hi) as (A1 & A2 & A3 & A4 & A5). split.
+  - (* emit *)
+    eapply (ev_step _ _ s s e t); [exact He|apply pre_refl|exact Hg|exact Hn|exact Hi|apply omono_refl|].
+    intros v s1 A1 A2 A3 A4 A5 P1. destruct (_ && _); [apply epost_err; exact P1|]. apply epost_ok. split.
     + eapply step_ok_trans; [apply A1|apply step_ok_same; [exact A5|apply emit_same]|apply omono_refl].
     + intros _. eapply Inv_lmono; [exact A3|apply same_ctx_lmono, emit_same].
-  - (* if *) eapply if_arms_ok; eauto.
+  - (* if *) apply xif_arms_ok; auto.
   - (* for *)
-    bst H p1 E1. destruct p1 as [iv s1]. bst H items0 E2. bst H p3 E3. destruct p3 as [items s2]. bst H s5 E4.
-    destruct (eval1 _ _ _ _ _ t He E1 Hg Hn Hi) as (A1 & A2 & A3 & A4 & A5).
-    cbn zeta. set (t1 := visit_expr iter t) in *.
+    cbn zeta. set (t1 := visit_expr iter t).
     set (ta := assign_target t0 (t_push t1)).
     set (tfv := match filter with Some f => visit_expr f ta | None => ta end).
     set (tb := t_assign N_loop tfv).
     set (t6 := t_pop (walk_list body tb)).
     set (T := t_pop (match els with Some b => walk_list b (t_push t6) | None => t_push t6 end)).
+    assert (Hn1 : nonempty t1) by (apply visit_expr_nonempty, Hn).
     assert (Sa : tstep (t_push t1) ta) by (apply assign_target_step, push_nonempty).
     assert (Hna : nonempty ta) by (eapply tstep_nonempty, Sa).
     assert (Sv : tsoft ta tfv) by (unfold tfv; destruct filter; [apply visit_expr_soft, Hna|apply tsoft_refl, Hna]).
@@ -695,84 +861,101 @@ Proof.
     { unfold T. apply tstep_push_pop; auto. destruct els; [apply walk_list_step', push_nonempty|apply tstep_refl, push_nonempty]. }
     assert (Ofv : omono (t_out tfv) (t_out t6)).
     { unfold t6. rewrite t_pop_out. eapply omono_trans; [apply tstep_omono, Sb|apply tstep_omono, Sw]. }
-    assert (O6T := tsoft_omono _ _ S6T).
-    (* the items *)
+    assert (O6T := tsoft_omono _ _ S6T). assert (O16 := tsoft_omono _ _ S16).
+    assert (O1T : omono (t_out t1) (t_out T)) by (eapply omono_trans; eauto).
+    assert (OfT : omono (t_out tfv) (t_out T)) by (eapply omono_trans; eauto).
+    eapply (ev_step _ _ s s iter t); [exact He|apply pre_refl|exact Hg|exact Hn|exact Hi|exact O1T|].
+    intros iv s1 A1 A2 A3 A4 A5 P1. fold t1 in A1, A3, A4.
+    apply lift_step; [exact P1|]. intros items0 E2.
     assert (G0 : Forall (vgood (s_clos s1)) items0).
     { destruct iv; try discriminate; try (destruct (u_strictish _); try discriminate); injection E2 as <-; first [apply vgood_list; exact A2 | constructor]. }
-    assert (F : step_ok c (t_out tfv) s1 s2 /\ Forall (vgood (s_clos s2)) items).
+    assert (A1T := step_ok_weaken c _ _ _ _ A1 O1T).
+    (* the filter pass *)
+    eapply (sub_step (t_out T) (t_out tfv) s s1 _ _ (fun p => step_ok c (t_out tfv) s1 (snd p) /\ Forall (vgood (s_clos (snd p))) (fst p))); [exact P1|exact OfT| |].
     { unfold tfv. destruct filter as [fe|].
-      - eapply (filter_items_ok _ t0 fe t1 s1 He A4 A3); eauto. apply lmono_refl.
-      - inversion E3; subst. split; [apply step_ok_refl, A5|exact G0]. }
-    destruct F as [F1 F2].
+      - apply (xfilter_items_ok _ t0 fe t1 s1 He A4 A3 items0 s1 A5 (lmono_refl c s1) G0).
+      - apply epost_ok. split; [apply step_ok_refl, A5|exact G0]. }
+    intros [items s2] [F1 F2]. cbn [fst snd] in *.
     assert (I12 : Inv c t1 s2) by (eapply Inv_lmono; [exact A3|apply (step_ok_lmono _ _ _ F1)]).
     assert (G2 := step_ok_sgood _ _ _ F1).
+    assert (A2T : step_ok c (t_out T) s s2).
+    { eapply step_ok_trans; [apply A1T| |apply omono_refl]. eapply step_ok_weaken; [apply F1|exact OfT]. }
     (* the iterations *)
-    set (n := lenZ items) in *. set (O := t_out (walk_list body tb)).
+    set (n := lenZ items). set (O := t_out (walk_list body tb)).
+    assert (OOT : omono O (t_out T)) by (unfold O; rewrite <- (t_pop_out (walk_list body tb)); exact O6T).
     assert (L0 : loop_state n O s2 (push_frame s2 (loop_frame0 n true))).
     { split; [apply sext_refl; cbn; discriminate|]. split; [apply push_sgood; [exact G2|apply fresh_frame_good]|]. apply asks_in_refl. reflexivity. }
-    destruct (loop_items_ok _ t0 body n filter t1 s2 (IHl esc) A4 I12 G2 _ _ _ _ E4 L0 F2) as (X1 & X2 & X3).
-    fold ta tfv tb O in X3.
+    eapply (sub_step (t_out T) O s s2 _ _ (loop_state n O s2)); [apply (pre_of_step _ _ _ A2T)|exact OOT| |].
+    { apply (xloop_items_ok _ t0 body n filter t1 s2 (IHl esc) A4 I12 G2 items _ 0 L0 F2). }
+    intros s5 (X1 & X2 & X3). fold ta tfv tb O in X3.
     destruct (pop_sext s2 _ s5 (proj1 G2) X1) as [Y1 Y2].
     assert (G6 : sgood (pop_frame s5)) by (eapply pop_sgood; eauto; apply G2).
     set (s6 := pop_frame s5) in *.
     assert (L26 : step_ok c (t_out t6) s2 s6).
     { split; [exact Y1|]. split; [exact G6|]. eapply asks_in_eq; [| |apply X3]; reflexivity. }
     assert (I6 : Inv c t6 s6) by (eapply Inv_soft; [apply S16|exact I12|apply (step_ok_lmono _ _ _ L26)]).
-    assert (Pre : step_ok c (t_out t6) s s6).
-    { eapply step_ok_trans; [|apply L26|apply omono_refl].
-      eapply step_ok_trans; [apply A1| |apply (tsoft_omono _ _ S16)]. eapply step_ok_weaken; [apply F1|exact Ofv]. }
-    assert (NoElse : Ok (SigNormal, s6) = Ok (sg, s') -> step_ok c (t_out T) s s' /\ (sg = SigNormal -> Inv c T s')).
-    { intros E. inversion E; subst. split; [eapply step_ok_weaken; [apply Pre|exact O6T]|].
-      intros _. eapply Inv_soft; [apply S6T|exact I6|apply lmono_refl]. }
-    destruct items as [|i0 items']; [|apply NoElse, H]. destruct els as [eb|]; [|apply NoElse, H].
+    assert (PreT : step_ok c (t_out T) s s6).
+    { eapply step_ok_trans; [apply A2T| |apply omono_refl]. eapply step_ok_weaken; [apply L26|exact O6T]. }
+    assert (NoElse : epost (t_out T) s (OkE (SigNormal, s6)) (SG (t_out T) s T)).
+    { apply epost_ok. split; [exact PreT|]. intros _. eapply Inv_soft; [apply S6T|exact I6|apply lmono_refl]. }
+    destruct items as [|i0 items']; [|exact NoElse]. destruct els as [eb|]; [|exact NoElse].
     assert (Ip : Inv c (t_push t6) s6) by (eapply Inv_push; [exact I6|apply lmono_refl]).
-    destruct (IHl esc _ _ _ _ (t_push t6) H G6 (push_nonempty t6) Ip) as [B1 _]. split.
-    + eapply step_ok_trans; [apply Pre| |exact O6T]. eapply step_ok_weaken; [apply B1|]. unfold T. rewrite t_pop_out. apply omono_refl.
-    + intros _. eapply Inv_soft; [apply S6T|exact I6|apply (step_ok_lmono _ _ _ B1)].
-  - (* set *) bst H p1 E1. destruct p1 as [v s1]. inversion H; subst.
-    destruct (eval1 _ _ _ _ _ t He E1 Hg Hn Hi) as (A1 & A2 & A3 & A4 & A5).
+    eapply epost_imp; [|eapply epost_rebase; [apply (pre_of_step _ _ _ PreT)| |apply (IHl esc s6 eb (t_push t6) G6 (push_nonempty t6) Ip)]].
+    + intros [sg s'] [B1 _]. cbn [fst snd] in *. split.
+      * eapply step_ok_trans; [apply PreT| |apply omono_refl]. eapply step_ok_weaken; [apply B1|]. unfold T. rewrite t_pop_out. apply omono_refl.
+      * intros _. eapply Inv_soft; [apply S6T|exact I6|apply (step_ok_lmono _ _ _ B1)].
+    + unfold T. rewrite t_pop_out. apply omono_refl.
+  - (* set *)
+    assert (Hn1 := visit_expr_nonempty e t Hn).
+    eapply (ev_step _ _ s s e t); [exact He|apply pre_refl|exact Hg|exact Hn|exact Hi|rewrite t_assign_out; apply omono_refl|].
+    intros v s1 A1 A2 A3 A4 A5 P1. apply epost_ok.
     assert (S1 := store_step_ok c (t_out (t_assign x (visit_expr e t))) s1 x v A5 A2). split.
     + eapply step_ok_trans; [apply A1|apply S1|]. rewrite t_assign_out. apply omono_refl.
     + intros _. eapply Inv_assign; [exact A4|exact A3|apply (step_ok_lmono _ _ _ S1)|apply store_local, A5].
   - (* set block *)
-    bst H p1 E1. destruct p1 as [[sg0 txt] s1]. bst E1 p2 E2. destruct p2 as [sg1 s1']. inversion E1; subst. clear E1.
     set (t2 := t_pop (walk_list body (t_push t))).
     assert (S2 : tsoft t t2) by (apply scoped_body_soft', Hn).
     assert (Hn2 : nonempty t2) by (eapply tsoft_nonempty, S2).
     assert (G0 : sgood (with_out s [])) by (eapply same_ctx_sgood; [apply with_out_same|exact Hg]).
     assert (Ip : Inv c (t_push t) (with_out s [])) by (eapply Inv_push; [exact Hi|apply same_ctx_lmono, with_out_same]).
-    destruct (IHl esc _ _ _ _ (t_push t) E2 G0 (push_nonempty t) Ip) as [B1 _].
-    set (sa := with_out s1' (s_out s)) in *.
-    assert (Sa : step_ok c (t_out t2) s sa).
+    assert (OT : omono (t_out (walk_list body (t_push t))) (t_out (t_assign x t2))) by (rewrite t_assign_out; unfold t2; rewrite t_pop_out; apply omono_refl).
+    set (oT := t_out (t_assign x t2)) in *.
+    rewrite bindE_assoc. eapply sub_step; [apply (pre_same _ _ _ _ (pre_refl oT s) (with_out_same s []))|exact OT|apply (IHl esc _ body (t_push t) G0 (push_nonempty t) Ip)|].
+    intros [sg1 s1'] [B1 _]. cbn [fst snd bindE] in *.
+    set (sa := with_out s1' (s_out s)).
+    assert (Sa : step_ok c oT s sa).
     { eapply step_ok_trans; [apply step_ok_same; [exact Hg|apply (with_out_same s [])]| |apply omono_refl].
-      eapply step_ok_trans; [apply B1|apply step_ok_same; [apply B1|apply with_out_same]|]. unfold t2. rewrite t_pop_out. apply omono_refl. }
-    destruct sg0.
-    + bst H v E3. inversion H; subst.
-      assert (Gv : vgood (s_clos sa) v).
-      { destruct filter; [eapply do_filter_good; [exact E3|exact I|constructor]|inversion E3; exact I]. }
-      assert (S1 := store_step_ok c (t_out (t_assign x t2)) sa x v (step_ok_sgood _ _ _ Sa) Gv). split.
-      * eapply step_ok_trans; [apply Sa|apply S1|]. rewrite t_assign_out. apply omono_refl.
-      * intros _. eapply Inv_assign; [exact Hn2| |apply (step_ok_lmono _ _ _ S1)|apply store_local, (step_ok_sgood _ _ _ Sa)].
-        eapply Inv_soft; [apply S2|exact Hi|apply (step_ok_lmono _ _ _ Sa)].
-    + inversion H; subst. split; [|intros; discriminate]. eapply step_ok_weaken; [apply Sa|]. rewrite t_assign_out. apply omono_refl.
-    + inversion H; subst. split; [|intros; discriminate]. eapply step_ok_weaken; [apply Sa|]. rewrite t_assign_out. apply omono_refl.
+      eapply step_ok_trans; [apply (step_ok_weaken c _ _ _ _ B1 OT)|apply step_ok_same; [apply B1|apply with_out_same]|apply omono_refl]. }
+    destruct sg1; try (apply epost_ok; split; [exact Sa|intros; discriminate]).
+    apply lift_step; [apply (pre_of_step _ _ _ Sa)|]. intros v E3.
+    assert (Gv : vgood (s_clos sa) v).
+    { destruct filter; [eapply xdo_filter_good; [exact E3|exact I|constructor]|inversion E3; exact I]. }
+    assert (S1 := store_step_ok c oT sa x v (step_ok_sgood _ _ _ Sa) Gv). apply epost_ok. split.
+    + eapply step_ok_trans; [apply Sa|apply S1|apply omono_refl].
+    + intros _. eapply Inv_assign; [exact Hn2| |apply (step_ok_lmono _ _ _ S1)|apply store_local, (step_ok_sgood _ _ _ Sa)].
+      eapply Inv_soft; [apply S2|exact Hi|apply (step_ok_lmono _ _ _ Sa)].
   - (* with *)
-    bst H s1 E1. bst H p2 E2. destruct p2 as [sg0 s2]. inversion H; subst. clear H.
-    set (sp := push_frame s empty_frame) in *.
+    set (sp := push_frame s empty_frame).
     assert (Gp : sgood sp) by (apply push_sgood; [exact Hg|apply fresh_frame_good]).
     assert (Ip : Inv c (t_push t) sp) by (eapply Inv_push; [exact Hi|apply push_lmono; reflexivity]).
-    destruct (with_binds_ok _ He _ _ _ (t_push t) E1 Gp (push_nonempty t) Ip) as [A1 A2].
-    set (tw := visit_binds binds (t_push t)) in *.
+    set (tw := visit_binds binds (t_push t)).
     assert (Sw : tstep (t_push t) tw) by (apply visit_binds_step, push_nonempty).
     assert (Hnw : nonempty tw) by (eapply tstep_nonempty, Sw).
-    destruct (IHl esc _ _ _ _ tw E2 (step_ok_sgood _ _ _ A1) Hnw A2) as [B1 _].
-    assert (AB : step_ok c (t_out (walk_list body tw)) sp s2).
-    { eapply step_ok_trans; [apply A1|apply B1|apply walk_list_omono, Hnw]. }
+    set (oT := t_out (t_pop (walk_list body tw))).
+    assert (OwT : omono (t_out tw) oT) by (unfold oT; rewrite t_pop_out; apply walk_list_omono, Hnw).
+    assert (Pp : pre oT s sp) by (apply pre_push; reflexivity).
+    eapply sub_step; [exact Pp|exact OwT|apply (xwith_binds_ok _ He binds sp (t_push t) Gp (push_nonempty t) Ip)|].
+    intros s1 [A1 A2]. fold tw in A1, A2.
+    assert (P1 : pre oT s s1) by (eapply pre_step; eauto).
+    eapply sub_step; [exact P1|unfold oT; rewrite t_pop_out; apply omono_refl|apply (IHl esc s1 body tw (step_ok_sgood _ _ _ A1) Hnw A2)|].
+    intros [sg0 s2] [B1 _]. cbn [fst snd] in *. apply epost_ok.
+    assert (AB : step_ok c oT sp s2).
+    { eapply step_ok_trans; [apply (step_ok_weaken c _ _ _ _ A1 OwT)| |apply omono_refl]. eapply step_ok_weaken; [apply B1|]. unfold oT. rewrite t_pop_out. apply omono_refl. }
     assert (P := scoped_step _ s empty_frame s2 Hg eq_refl AB). split; [exact P|].
     intros _. eapply Inv_scoped; [|exact Hi|apply (step_ok_lmono _ _ _ P)].
     eapply tstep_trans; [apply Sw|apply walk_list_step', Hnw].
   - (* macro *)
-    destruct (enclose c s _) as [s1 cl] eqn:E. inversion H; subst. clear H.
+    destruct (enclose c s _) as [s1 cl] eqn:E.
     destruct (enclose_spec c Hroot _ _ _ _ E Hg) as (X1 & X2 & X3 & X4 & _).
     set (t2 := t_pop (visit_macro true params defaults body (t_push t))).
     assert (S2 : tsoft t t2) by (apply tstep_push_pop; [exact Hn|apply visit_macro_step', push_nonempty]).
@@ -782,23 +965,23 @@ Proof.
     assert (E1 : step_ok c (t_out (t_assign m0 t2)) s s1).
     { split; [exact X1|]. split; [exact X2|]. eapply asks_in_weaken; [|apply X3]. intros y [Hy1 Hy2]. split; [|exact Hy2].
       rewrite t_assign_out. eapply enclose_asks_reported; eauto. }
-    assert (S1 := store_step_ok c (t_out (t_assign m0 t2)) s1 m0 (VMacro mc cl) X2 Gm). split.
+    assert (S1 := store_step_ok c (t_out (t_assign m0 t2)) s1 m0 (VMacro mc cl) X2 Gm). apply epost_ok. split.
     + eapply step_ok_trans; [apply E1|apply S1|apply omono_refl].
     + intros _. eapply Inv_assign; [exact Hn2| |apply (step_ok_lmono _ _ _ S1)|apply store_local, X2].
       eapply Inv_soft; [apply S2|exact Hi|apply sext_lmono, X1].
   - (* call block *)
-    bst H p1 E1. destruct p1 as [vs s1].
-    destruct (enclose c s1 _) as [s2 cl] eqn:E. destruct (lookup c s2 m0) as [fv s3] eqn:El.
     set (t1 := t_lookup m0 t). assert (S1 : tsoft t t1) by (apply tsoft_lookup, Hn).
     assert (Hn1 : nonempty t1) by (eapply tsoft_nonempty, S1).
     assert (I1 : Inv c t1 s) by (eapply Inv_soft; [apply S1|exact Hi|apply lmono_refl]).
-    destruct (map_eval_ok _ He _ _ _ _ _ E1 Hg Hn1 I1) as [A1 A2].
-    set (t2 := visit_list args t1) in *. assert (S2 : tsoft t1 t2) by (apply visit_list_soft', Hn1).
+    set (t2 := visit_list args t1). assert (S2 : tsoft t1 t2) by (apply visit_list_soft', Hn1).
     assert (Hn2 : nonempty t2) by (eapply tsoft_nonempty, S2).
-    assert (I2 : Inv c t2 s1) by (eapply Inv_soft; [apply S2|exact I1|apply (step_ok_lmono _ _ _ A1)]).
     set (T := t_pop (visit_macro true [] [] body (t_push t2))).
     assert (S3 : tsoft t2 T) by (apply tstep_push_pop; [exact Hn2|apply visit_macro_step', push_nonempty]).
     assert (O2T := tsoft_omono _ _ S3).
+    eapply sub_step; [apply pre_refl|exact O2T|apply (xmap_eval_ok _ He args s t1 Hg Hn1 I1)|].
+    intros [vs s1] [A1 A2]. cbn [fst snd] in *. fold t2 in A1.
+    assert (I2 : Inv c t2 s1) by (eapply Inv_soft; [apply S2|exact I1|apply (step_ok_lmono _ _ _ A1)]).
+    destruct (enclose c s1 _) as [s2 cl] eqn:E. destruct (lookup c s2 m0) as [fv s3] eqn:El.
     destruct (enclose_spec c Hroot _ _ _ _ E (step_ok_sgood _ _ _ A1)) as (X1 & X2 & X3 & X4 & _).
     assert (E2 : step_ok c (t_out T) s1 s2).
     { split; [exact X1|]. split; [exact X2|]. eapply asks_in_weaken; [|apply X3]. intros y [Hy1 Hy2]. split; [|exact Hy2].
@@ -807,74 +990,81 @@ Proof.
     destruct (lookup_ok (t_out T) s2 m0 fv s3 El X2) as (C1 & C2 & C3 & C4 & _).
     { intros Hl. apply O2T, (tsoft_omono _ _ S2). eapply lookup_late; [exact Hi|apply (step_ok_lmono _ _ _ A12)|exact Hl]. }
     assert (A13 : step_ok c (t_out T) s s3) by (eapply step_ok_trans; [apply A12|apply C1|apply omono_refl]).
-    destruct fv as [fv|]; [|discriminate]. destruct fv; try discriminate.
-    bst H p4 E4. destruct p4 as [v s4]. inversion H; subst. clear H.
+    assert (P3 := pre_of_step _ _ _ A13).
+    destruct fv as [fv|]; [|apply epost_err; exact P3]. destruct fv; try (apply epost_err; exact P3).
     assert (Gm : mgood (s_clos s3) m1 closure) by (apply (C2 _ eq_refl)).
     assert (Gv : Forall (vgood (s_clos s3)) vs).
     { eapply Forall_impl; [|apply A2]. intros w Hw. rewrite C4. eapply vgood_step; [apply E2|exact Hw]. }
     assert (Gk : Forall (fun kv => vgood (s_clos s3) (snd kv)) [(N_caller, VMacro (mkMacro N_caller [] [] body (uses_caller [] [] body)) cl)]).
     { constructor; [|constructor]. cbn [snd]. rewrite C4. split; [reflexivity|exact X4]. }
-    destruct (IHm esc _ _ _ _ _ _ _ E4 (step_ok_sgood _ _ _ A13) Gm Gv Gk) as [D1 D2].
+    eapply sub_step; [exact P3|apply omono_nil|apply (IHm esc s3 m1 closure vs _ (step_ok_sgood _ _ _ A13) Gm Gv Gk)|].
+    intros [v s4] [D1 D2]. cbn [fst snd] in *.
     assert (A14 : step_ok c (t_out T) s s4).
     { eapply step_ok_trans; [apply A13| |apply omono_refl]. eapply step_ok_weaken; [apply D1|apply omono_nil]. }
-    split.
+    apply epost_ok. split.
     + eapply step_ok_trans; [apply A14|apply step_ok_same; [apply A14|apply emit_same]|apply omono_refl].
     + intros _. eapply Inv_soft; [eapply tsoft_trans; [apply S1|]; eapply tsoft_trans; [apply S2|apply S3]|exact Hi|].
       eapply lmono_trans; [apply (step_ok_lmono _ _ _ A14)|apply same_ctx_lmono, emit_same].
   - (* filter block *)
-    bst H p1 E1. destruct p1 as [[sg0 txt] s1]. bst E1 p2 E2. destruct p2 as [sg1 s1']. inversion E1; subst. clear E1.
     set (t2 := t_pop (walk_list body (t_push t))).
     assert (S2 : tsoft t t2) by (apply scoped_body_soft', Hn).
     assert (G0 : sgood (with_out s [])) by (eapply same_ctx_sgood; [apply with_out_same|exact Hg]).
     assert (Ip : Inv c (t_push t) (with_out s [])) by (eapply Inv_push; [exact Hi|apply same_ctx_lmono, with_out_same]).
-    destruct (IHl esc _ _ _ _ (t_push t) E2 G0 (push_nonempty t) Ip) as [B1 _].
-    set (sa := with_out s1' (s_out s)) in *.
+    assert (OT : omono (t_out (walk_list body (t_push t))) (t_out t2)) by (unfold t2; rewrite t_pop_out; apply omono_refl).
+    rewrite bindE_assoc. eapply sub_step; [apply (pre_same _ _ _ _ (pre_refl (t_out t2) s) (with_out_same s []))|exact OT|apply (IHl esc _ body (t_push t) G0 (push_nonempty t) Ip)|].
+    intros [sg1 s1'] [B1 _]. cbn [fst snd bindE] in *.
+    set (sa := with_out s1' (s_out s)).
     assert (Sa : step_ok c (t_out t2) s sa).
     { eapply step_ok_trans; [apply step_ok_same; [exact Hg|apply (with_out_same s [])]| |apply omono_refl].
-      eapply step_ok_trans; [apply B1|apply step_ok_same; [apply B1|apply with_out_same]|]. unfold t2. rewrite t_pop_out. apply omono_refl. }
+      eapply step_ok_trans; [apply (step_ok_weaken c _ _ _ _ B1 OT)|apply step_ok_same; [apply B1|apply with_out_same]|apply omono_refl]. }
     assert (Ia : Inv c t2 sa) by (eapply Inv_soft; [apply S2|exact Hi|apply (step_ok_lmono _ _ _ Sa)]).
-    destruct sg0.
-    + bst H v E3. inversion H; subst. split.
-      * eapply step_ok_trans; [apply Sa|apply step_ok_same; [apply Sa|apply emit_same]|apply omono_refl].
-      * intros _. eapply Inv_lmono; [exact Ia|apply same_ctx_lmono, emit_same].
-    + inversion H; subst. split; [exact Sa|intros; discriminate].
-    + inversion H; subst. split; [exact Sa|intros; discriminate].
+    destruct sg1; try (apply epost_ok; split; [exact Sa|intros; discriminate]).
+    apply lift_step; [apply (pre_of_step _ _ _ Sa)|]. intros v E3. apply epost_ok. split.
+    + eapply step_ok_trans; [apply Sa|apply step_ok_same; [apply Sa|apply emit_same]|apply omono_refl].
+    + intros _. eapply Inv_lmono; [exact Ia|apply same_ctx_lmono, emit_same].
   - (* autoescape *)
-    bst H p1 E1. destruct p1 as [v0 s1]. bst H esc' E2.
-    destruct (eval1 _ _ _ _ _ t He E1 Hg Hn Hi) as (A1 & A2 & A3 & A4 & A5).
-    set (t1 := visit_expr v t) in *. set (T := t_pop (walk_list body (t_push t1))).
-    assert (S1 : tsoft t1 T) by (apply scoped_body_soft', A4).
+    set (t1 := visit_expr v t). set (T := t_pop (walk_list body (t_push t1))).
+    assert (Hn1 : nonempty t1) by (apply visit_expr_nonempty, Hn).
+    assert (S1 : tsoft t1 T) by (apply scoped_body_soft', Hn1).
+    assert (O1T := tsoft_omono _ _ S1).
+    eapply (ev_step _ _ s s v t); [exact He|apply pre_refl|exact Hg|exact Hn|exact Hi|exact O1T|].
+    intros v0 s1 A1 A2 A3 A4 A5 P1. fold t1 in A1, A3.
+    apply lift_step; [exact P1|]. intros esc' _.
     assert (Ip : Inv c (t_push t1) s1) by (eapply Inv_push; [exact A3|apply lmono_refl]).
-    destruct (IHl esc' _ _ _ _ (t_push t1) H A5 (push_nonempty t1) Ip) as [B1 _]. split.
-    + eapply step_ok_trans; [apply A1| |apply (tsoft_omono _ _ S1)]. eapply step_ok_weaken; [apply B1|]. unfold T. rewrite t_pop_out. apply omono_refl.
-    + intros _. eapply Inv_soft; [apply S1|exact A3|apply (step_ok_lmono _ _ _ B1)].
-  - (* break *) inversion H; subst. split; [apply step_ok_refl, Hg|intros; discriminate].
-  - (* continue *) inversion H; subst. split; [apply step_ok_refl, Hg|intros; discriminate].
+    assert (A1T := step_ok_weaken c _ _ _ _ A1 O1T).
+    eapply epost_imp; [|eapply epost_rebase; [exact P1| |apply (IHl esc' s1 body (t_push t1) A5 (push_nonempty t1) Ip)]].
+    + intros [sg s'] [B1 _]. cbn [fst snd] in *. split.
+      * eapply step_ok_trans; [apply A1T| |apply omono_refl]. eapply step_ok_weaken; [apply B1|]. unfold T. rewrite t_pop_out. apply omono_refl.
+      * intros _. eapply Inv_soft; [apply S1|exact A3|apply (step_ok_lmono _ _ _ B1)].
+    + unfold T. rewrite t_pop_out. apply omono_refl.
+  - (* break *) apply epost_ok. split; [apply step_ok_refl, Hg|intros; discriminate].
+  - (* continue *) apply epost_ok. split; [apply step_ok_refl, Hg|intros; discriminate].
 Qed.
 
-Lemma exec_list_step fuel : all_specs fuel -> forall esc, exec_list_spec (exec_list c (S fuel) esc).
+Lemma xexec_list_step fuel : xall_specs fuel -> forall esc, xexec_list_spec (xexec_list c (S fuel) esc).
 Proof.
-  intros (_ & _ & IHx & IHl) esc s l sg s' t H Hg Hn Hi. cbn [exec_list] in H. destruct l as [|st r].
-  - inversion H; subst. split; [apply step_ok_refl, Hg|intros _; exact Hi].
-  - bst H p1 E1. destruct p1 as [sg0 s1].
-    destruct (IHx esc _ _ _ _ t E1 Hg Hn Hi) as [A1 A2].
-    change (walk_list (st :: r) t) with (walk_list r (walk st t)).
+  intros (_ & _ & IHx & IHl) esc s l t Hg Hn Hi. cbn [xexec_list]. fold (xexec c). destruct l as [|st r].
+  - apply epost_ok. split; [apply step_ok_refl, Hg|intros _; exact Hi].
+  - change (walk_list (st :: r) t) with (walk_list r (walk st t)).
     assert (Hn1 : nonempty (walk st t)) by (eapply tstep_nonempty, walk_step, Hn).
     assert (Om : omono (t_out (walk st t)) (t_out (walk_list r (walk st t)))) by (apply walk_list_omono, Hn1).
-    destruct sg0; try (inversion H; subst; split; [eapply step_ok_weaken; eauto|intros; discriminate]).
-    destruct (IHl esc _ _ _ _ (walk st t) H (step_ok_sgood _ _ _ A1) Hn1 (A2 eq_refl)) as [B1 B2]. split; auto.
-    eapply step_ok_trans; eauto.
+    eapply sub_step; [apply pre_refl|exact Om|apply (IHx esc s st t Hg Hn Hi)|].
+    intros [sg0 s1] [A1 A2]. cbn [fst snd] in *.
+    assert (A1T := step_ok_weaken c _ _ _ _ A1 Om).
+    destruct sg0; try (apply epost_ok; split; [exact A1T|intros; discriminate]).
+    eapply epost_imp; [|eapply epost_rebase; [apply (pre_of_step _ _ _ A1T)|apply omono_refl|apply (IHl esc s1 r (walk st t) (step_ok_sgood _ _ _ A1) Hn1 (A2 eq_refl))]].
+    intros [sg s'] [B1 B2]. split; auto. cbn [snd] in *. eapply step_ok_trans; [apply A1T|apply B1|apply omono_refl].
 Qed.
 
-Theorem all_specs_hold : forall fuel, all_specs fuel.
+Theorem xall_specs_hold : forall fuel, xall_specs fuel.
 Proof.
   induction fuel as [|fuel IH].
-  - repeat split; intros; discriminate.
-  - split; [apply eval_step, IH|]. split; [apply call_step, IH|]. split; [apply exec_step, IH|apply exec_list_step, IH].
+  - repeat split; intros; exact I.
+  - split; [apply xeval_step, IH|]. split; [apply xcall_step, IH|]. split; [apply xexec_step, IH|apply xexec_list_step, IH].
 Qed.
 End Main.
 
-(* ---- the theorem ---- *)
+(* ---- the theorems ---- *)
 Definition plain_context (c : cfg) : bool := forallb (fun kv => vplain (snd kv)) (c_root c).
 
 Lemma plain_root_good c : plain_context c = true -> root_good c.
@@ -894,51 +1084,65 @@ Proof.
   - unfold nonempty. cbn. discriminate.
 Qed.
 
-Lemma undeclared_sound_proof (c : cfg) (fuel : nat) (body : list stmt) (s : st) :
+(* every outcome: the lookups of a finished render and the lookups recorded up to a failure *)
+Lemma undeclared_sound_proof (c : cfg) (fuel : nat) (body : list stmt) :
+  plain_context c = true ->
+  forall x, In x (asks_of (run_asks c fuel body)) -> In x (find_undeclared body).
+Proof.
+  intros Hp x Hx. assert (Hroot := plain_root_good c Hp).
+  destruct (xall_specs_hold c Hroot fuel) as (_ & _ & _ & Hl).
+  destruct (init_good c) as (G & I0 & N0).
+  pose proof (Hl (c_escape c) init_state body (mkT [] [[]]) G N0 I0) as H.
+  unfold run_asks in Hx. destruct (xexec_list c fuel (c_escape c) init_state body) as [[sg s]|code a| |]; cbn [bindE asks_of epost] in *; try contradiction.
+  - destruct H as [(_ & _ & (l & El & Hin)) _]. cbn [snd] in *.
+    unfold init_state in El. cbn [s_asks] in El. rewrite app_nil_r in El. rewrite El in Hx. apply mem_In, (Hin x Hx).
+  - destruct H as (l & El & Hin). cbn [ast s_asks init_state] in El. rewrite app_nil_r in El. subst a. apply mem_In, (Hin x Hx).
+Qed.
+
+(* ... in particular for the shared interpreter, whose successful runs are runs of this one *)
+Lemma undeclared_sound_interp_proof (c : cfg) (fuel : nat) (body : list stmt) (s : st) :
   plain_context c = true -> Interp.run c fuel body = Ok s ->
   forall x, In x (s_asks s) -> In x (find_undeclared body).
 Proof.
-  intros Hp Hr x Hx. assert (Hroot := plain_root_good c Hp).
-  unfold Interp.run in Hr. apply bind_ok in Hr as ([sg s1] & H1 & Hr). inversion Hr; subst. clear Hr.
-  destruct (all_specs_hold c Hroot fuel) as (_ & _ & _ & Hl).
-  destruct (init_good c) as (G & I0 & N0).
-  destruct (Hl (c_escape c) _ _ _ _ (mkT [] [[]]) H1 G N0 I0) as [(_ & _ & (l & El & Hin)) _].
-  unfold init_state in El. cbn [s_asks] in El. rewrite app_nil_r in El. rewrite El in Hx.
-  apply mem_In. apply (Hin x Hx).
+  intros Hp Hr x Hx. apply (undeclared_sound_proof c fuel body Hp). rewrite (xrun_agrees_proof c fuel body s Hr). exact Hx.
 Qed.
 
-(* a render that fails inside its k-th top-level statement: what the completed statements before it
-   asked for is in the report of the whole template *)
-Lemma undeclared_sound_prefix_proof (c : cfg) (fuel : nat) (done rest : list stmt) (s : st) :
-  plain_context c = true -> Interp.run c fuel done = Ok s ->
-  forall x, In x (s_asks s) -> In x (find_undeclared (done ++ rest)).
-Proof.
-  intros Hp Hr x Hx. assert (H := undeclared_sound_proof c fuel done s Hp Hr x Hx).
-  unfold find_undeclared in *. unfold walk_list in *. rewrite fold_left_app.
-  apply mem_In. apply mem_In in H.
-  assert (N : nonempty (fold_left (fun t s0 => walk s0 t) done (mkT [] [[]]))).
-  { eapply tstep_nonempty. apply (walk_list_step' done). unfold nonempty. cbn. discriminate. }
-  apply (tstep_omono _ _ (walk_list_step' rest _ N)). exact H.
-Qed.
-
-(* calling a well-formed macro never asks the render context for anything: every free name of the
-   macro is in its closure *)
-Lemma macro_call_asks_nothing_proof (c : cfg) fuel esc s mc cl args kwargs v s' :
+(* calling a well-formed macro never asks the render context for anything, whether the call finishes
+   or fails: every free name of the macro is in its closure *)
+Lemma macro_call_asks_nothing_proof (c : cfg) fuel esc s mc cl args kwargs :
   plain_context c = true -> sgood s -> mgood (s_clos s) mc cl ->
   Forall (vgood (s_clos s)) args -> Forall (fun kv => vgood (s_clos s) (snd kv)) kwargs ->
-  call_macro c fuel esc s mc cl args kwargs = Ok (v, s') -> s_asks s' = s_asks s.
+  match xcall_macro c fuel esc s mc cl args kwargs with
+  | OkE (_, s') => s_asks s' = s_asks s
+  | ErrE _ a => a = s_asks s
+  | _ => True
+  end.
 Proof.
-  intros Hp Hg Hm Ha Hk H. assert (Hroot := plain_root_good c Hp).
-  destruct (all_specs_hold c Hroot fuel) as (_ & Hc & _ & _).
-  destruct (Hc esc _ _ _ _ _ _ _ H Hg Hm Ha Hk) as [(_ & _ & (l & El & Hin)) _].
-  destruct l as [|x l']; [exact El|]. destruct (Hin x (or_introl eq_refl)) as [Hx _]. discriminate.
+  intros Hp Hg Hm Ha Hk. assert (Hroot := plain_root_good c Hp).
+  destruct (xall_specs_hold c Hroot fuel) as (_ & Hc & _ & _).
+  pose proof (Hc esc s mc cl args kwargs Hg Hm Ha Hk) as H.
+  destruct (xcall_macro c fuel esc s mc cl args kwargs) as [[v s']|code a| |]; cbn [epost] in H; auto.
+  - destruct H as [(_ & _ & (l & El & Hin)) _]. cbn [snd] in *.
+    destruct l as [|x l']; [exact El|]. destruct (Hin x (or_introl eq_refl)) as [Hx _]. discriminate.
+  - destruct H as (l & El & Hin). destruct l as [|x l']; [exact El|]. destruct (Hin x (or_introl eq_refl)) as [Hx _]. discriminate.
 Qed.
 
-(* ---- the tracker before the fix: refuted on each construct whose visit order was wrong ---- *)
+(* nested mode (`undeclared_variables(true)`): every key a render asks the context for, whatever its
+   outcome, is the first segment of a reported dotted name *)
+Lemma nested_sound_proof (c : cfg) (fuel : nat) (body : list stmt) :
+  plain_context c = true ->
+  forall x, In x (asks_of (run_asks c fuel body)) -> exists p, In p (find_undeclared_nested body) /\ fst p = x.
+Proof.
+  intros Hp x Hx. assert (H := undeclared_sound_proof c fuel body Hp x Hx).
+  apply mem_In, flat_in_nested in H. unfold heads_mem in H. apply existsb_exists in H as (p & Hp1 & Hp2).
+  exists p. split; auto. apply Z.eqb_eq, Hp2.
+Qed.
+
+(* ---- the tracker before the fixes: refuted on each construct whose visit was wrong ---- *)
 Definition asked_not_reported (report : list stmt -> list name) (c : cfg) (fuel : nat) (body : list stmt) : bool :=
-  match Interp.run c fuel body with
-  | Ok s => existsb (fun x => negb (mem x (report body))) (s_asks s)
-  | _ => false
+  match run_asks c fuel body with
+  | GasE | PanicE => false
+  | o => existsb (fun x => negb (mem x (report body))) (asks_of o)
   end.
 
 Definition X : name := 100.
@@ -954,21 +1158,32 @@ Definition p_macro_rec := [SMacro M [] [] [SEmit (EVar M)]].                    
 Definition p_loop_iter := [SFor (TVar X) (EVar N_loop) None [] None false].          (* {% for x in loop %}{% endfor %} *)
 Definition p_loop_filter := [SFor (TVar X) (EList [EConst (LInt 1)]) (Some (EVar N_loop)) [] None false]. (* {% for x in [1] if loop %} *)
 Definition p_autoescape := [SAutoEscape (EVar X) []].                               (* {% autoescape x %}{% endautoescape %} *)
-Definition refutation_programs := [p_set; p_with; p_setblock; p_macro_default; p_macro_default2; p_macro_rec; p_loop_iter; p_loop_filter; p_autoescape].
+Definition p_slice := [SEmit (EFilter F_length (ESlice (EVar X) (EConst (LInt 1)) (EConst (LInt 2)) (EConst LNone)) [])].  (* {{ x[1:2]|length }} *)
+Definition p_setattr := [SSetAttr X (EConst (LInt 1))].                             (* {% set x.attr = 1 %}: fails after asking for x *)
+Definition refutation_programs :=
+  [p_set; p_with; p_setblock; p_macro_default; p_macro_default2; p_macro_rec; p_loop_iter; p_loop_filter; p_autoescape; p_slice; p_setattr].
 
 Lemma refuted_before_fix_proof :
   forallb (asked_not_reported find_undeclared_old cfg0 50) refutation_programs = true /\
   forallb (fun p => negb (asked_not_reported find_undeclared cfg0 50 p)) refutation_programs = true.
 Proof. split; vm_compute; reflexivity. Qed.
 
-(* non-vacuity: a program with a set, a macro with a default that reads the context, a filtered loop and
-   a call block, rendered with a context of plain values: renders "8182", asks the context five times
-   (y at the macro declaration, x, y twice in the loop filter, an undefined name at the end) *)
+(* non-vacuity, success: a program with a set, a macro whose default reads the context, a filtered loop,
+   a call block and a slice, on a context of plain values: renders "8182" and "2", asks six times *)
 Definition demo_ctx := mkCfg Lenient [(X, VList [VInt 1; VInt 2]); (Y, VInt 5)] false.
 Definition demo_body : list stmt :=
   [ SSet 104 (EConst (LInt 3));
     SMacro M [103] [(103, EVar Y)] [SEmit (EBin OAdd (EVar 103) (EVar 104)); SEmit (ECall N_caller [] [])];
     SFor (TVar 105) (EVar X) (Some (ECmp (EVar 105) [(CLt, EVar Y)])) [SCallBlock M [] [SEmit (EVar 105)]] None false;
+    SEmit (EFilter F_length (ESlice (EVar X) (EConst LNone) (EConst LNone) (EConst (LInt (-1)))) []);
     SEmit (EVar 106) ].
-Lemma demo_runs : exists s, Interp.run demo_ctx 60 demo_body = Ok s /\ plain_context demo_ctx = true /\ length (s_asks s) = 5%nat.
+Lemma demo_runs : exists s, run_asks demo_ctx 60 demo_body = OkE s /\ plain_context demo_ctx = true /\ length (s_asks s) = 6%nat.
 Proof. eexists. split; [vm_compute; reflexivity|]. split; reflexivity. Qed.
+
+(* non-vacuity, failure: the render fails in its second statement, an assignment to an attribute of a
+   value that is no namespace, after it asked for three keys (x; then the value and the namespace of
+   the assignment); the third statement is not reached *)
+Definition demo_fail : list stmt :=
+  [ SEmit (EVar X); SSetAttr Y (EVar 107); SEmit (EVar 108) ].
+Lemma demo_fails : exists a, run_asks demo_ctx 60 demo_fail = ErrE E_InvalidOperation a /\ length a = 3%nat.
+Proof. eexists. split; [vm_compute; reflexivity|reflexivity]. Qed.
